@@ -333,9 +333,12 @@ mod verif_c01_recursive_step {
 
     //@ obligation C02 C02.recursive_map_to_4kib.shape_p4_absent.documented_outcome bounded="pool of 7 tables (4 path + 3 allocatable); tree-shaped sparse pre-state (target path, one neighbour word per path table, garbage in allocatable frames); recursive index 300; page-table indices (255,511,0,256)"
     //@ obligation C01 C01.recursive_map_to_4kib.shape_p4_absent.target_translates_to_frame bounded="pool of 7 tables (4 path + 3 allocatable); tree-shaped sparse pre-state (target path, one neighbour word per path table, garbage in allocatable frames); recursive index 300; page-table indices (255,511,0,256)"
+    //@ obligation C11 C11.recursive_map_to_4kib.shape_p4_absent.target_translates_to_frame bounded="pool of 7 tables (4 path + 3 allocatable); tree-shaped sparse pre-state (target path, one neighbour word per path table, garbage in allocatable frames); recursive index 300; page-table indices (255,511,0,256)"
     //@ obligation C01 C01.recursive_map_to_4kib.shape_p4_absent.target_leaf_flags bounded="pool of 7 tables (4 path + 3 allocatable); tree-shaped sparse pre-state (target path, one neighbour word per path table, garbage in allocatable frames); recursive index 300; page-table indices (255,511,0,256)"
+    //@ obligation C11 C11.recursive_map_to_4kib.shape_p4_absent.target_leaf_flags bounded="pool of 7 tables (4 path + 3 allocatable); tree-shaped sparse pre-state (target path, one neighbour word per path table, garbage in allocatable frames); recursive index 300; page-table indices (255,511,0,256)"
     //@ obligation C01 C01.recursive_map_to_4kib.shape_p4_absent.parent_rights_include_requested bounded="pool of 7 tables (4 path + 3 allocatable); tree-shaped sparse pre-state (target path, one neighbour word per path table, garbage in allocatable frames); recursive index 300; page-table indices (255,511,0,256)"
     //@ obligation C01 C01.recursive_map_to_4kib.shape_p4_absent.other_addresses_unchanged bounded="pool of 7 tables (4 path + 3 allocatable); tree-shaped sparse pre-state (target path, one neighbour word per path table, garbage in allocatable frames); recursive index 300; page-table indices (255,511,0,256)"
+    //@ obligation C11 C11.recursive_map_to_4kib.shape_p4_absent.other_addresses_unchanged bounded="pool of 7 tables (4 path + 3 allocatable); tree-shaped sparse pre-state (target path, one neighbour word per path table, garbage in allocatable frames); recursive index 300; page-table indices (255,511,0,256)"
     //@ obligation C01 C01.recursive_map_to_4kib.shape_p4_absent.result_reports_page bounded="pool of 7 tables (4 path + 3 allocatable); tree-shaped sparse pre-state (target path, one neighbour word per path table, garbage in allocatable frames); recursive index 300; page-table indices (255,511,0,256)"
     //@ obligation C01 C01.recursive_map_to_4kib.shape_p4_absent.result_reports_frame bounded="pool of 7 tables (4 path + 3 allocatable); tree-shaped sparse pre-state (target path, one neighbour word per path table, garbage in allocatable frames); recursive index 300; page-table indices (255,511,0,256)"
     //@ obligation C11 C11.recursive_map_to_4kib.shape_p4_absent.token_names_page bounded="pool of 7 tables (4 path + 3 allocatable); tree-shaped sparse pre-state (target path, one neighbour word per path table, garbage in allocatable frames); recursive index 300; page-table indices (255,511,0,256)"
@@ -357,9 +360,12 @@ mod verif_c01_recursive_step {
 
     //@ obligation C02 C02.recursive_map_to_4kib.shape_p4_absent.documented_outcome tier=thorough bounded="pool of 7 tables (4 path + 3 allocatable); tree-shaped sparse pre-state (target path, one neighbour word per path table, garbage in allocatable frames); recursive index 300; page-table indices (256,0,510,511)"
     //@ obligation C01 C01.recursive_map_to_4kib.shape_p4_absent.target_translates_to_frame tier=thorough bounded="pool of 7 tables (4 path + 3 allocatable); tree-shaped sparse pre-state (target path, one neighbour word per path table, garbage in allocatable frames); recursive index 300; page-table indices (256,0,510,511)"
+    //@ obligation C11 C11.recursive_map_to_4kib.shape_p4_absent.target_translates_to_frame tier=thorough bounded="pool of 7 tables (4 path + 3 allocatable); tree-shaped sparse pre-state (target path, one neighbour word per path table, garbage in allocatable frames); recursive index 300; page-table indices (256,0,510,511)"
     //@ obligation C01 C01.recursive_map_to_4kib.shape_p4_absent.target_leaf_flags tier=thorough bounded="pool of 7 tables (4 path + 3 allocatable); tree-shaped sparse pre-state (target path, one neighbour word per path table, garbage in allocatable frames); recursive index 300; page-table indices (256,0,510,511)"
+    //@ obligation C11 C11.recursive_map_to_4kib.shape_p4_absent.target_leaf_flags tier=thorough bounded="pool of 7 tables (4 path + 3 allocatable); tree-shaped sparse pre-state (target path, one neighbour word per path table, garbage in allocatable frames); recursive index 300; page-table indices (256,0,510,511)"
     //@ obligation C01 C01.recursive_map_to_4kib.shape_p4_absent.parent_rights_include_requested tier=thorough bounded="pool of 7 tables (4 path + 3 allocatable); tree-shaped sparse pre-state (target path, one neighbour word per path table, garbage in allocatable frames); recursive index 300; page-table indices (256,0,510,511)"
     //@ obligation C01 C01.recursive_map_to_4kib.shape_p4_absent.other_addresses_unchanged tier=thorough bounded="pool of 7 tables (4 path + 3 allocatable); tree-shaped sparse pre-state (target path, one neighbour word per path table, garbage in allocatable frames); recursive index 300; page-table indices (256,0,510,511)"
+    //@ obligation C11 C11.recursive_map_to_4kib.shape_p4_absent.other_addresses_unchanged tier=thorough bounded="pool of 7 tables (4 path + 3 allocatable); tree-shaped sparse pre-state (target path, one neighbour word per path table, garbage in allocatable frames); recursive index 300; page-table indices (256,0,510,511)"
     //@ obligation C01 C01.recursive_map_to_4kib.shape_p4_absent.result_reports_page tier=thorough bounded="pool of 7 tables (4 path + 3 allocatable); tree-shaped sparse pre-state (target path, one neighbour word per path table, garbage in allocatable frames); recursive index 300; page-table indices (256,0,510,511)"
     //@ obligation C01 C01.recursive_map_to_4kib.shape_p4_absent.result_reports_frame tier=thorough bounded="pool of 7 tables (4 path + 3 allocatable); tree-shaped sparse pre-state (target path, one neighbour word per path table, garbage in allocatable frames); recursive index 300; page-table indices (256,0,510,511)"
     //@ obligation C11 C11.recursive_map_to_4kib.shape_p4_absent.token_names_page tier=thorough bounded="pool of 7 tables (4 path + 3 allocatable); tree-shaped sparse pre-state (target path, one neighbour word per path table, garbage in allocatable frames); recursive index 300; page-table indices (256,0,510,511)"
@@ -381,9 +387,12 @@ mod verif_c01_recursive_step {
 
     //@ obligation C02 C02.recursive_map_to_4kib.shape_p3_absent.documented_outcome tier=thorough bounded="pool of 7 tables (4 path + 3 allocatable); tree-shaped sparse pre-state (target path, one neighbour word per path table, garbage in allocatable frames); recursive index 300; page-table indices (255,511,0,256)"
     //@ obligation C01 C01.recursive_map_to_4kib.shape_p3_absent.target_translates_to_frame tier=thorough bounded="pool of 7 tables (4 path + 3 allocatable); tree-shaped sparse pre-state (target path, one neighbour word per path table, garbage in allocatable frames); recursive index 300; page-table indices (255,511,0,256)"
+    //@ obligation C11 C11.recursive_map_to_4kib.shape_p3_absent.target_translates_to_frame tier=thorough bounded="pool of 7 tables (4 path + 3 allocatable); tree-shaped sparse pre-state (target path, one neighbour word per path table, garbage in allocatable frames); recursive index 300; page-table indices (255,511,0,256)"
     //@ obligation C01 C01.recursive_map_to_4kib.shape_p3_absent.target_leaf_flags tier=thorough bounded="pool of 7 tables (4 path + 3 allocatable); tree-shaped sparse pre-state (target path, one neighbour word per path table, garbage in allocatable frames); recursive index 300; page-table indices (255,511,0,256)"
+    //@ obligation C11 C11.recursive_map_to_4kib.shape_p3_absent.target_leaf_flags tier=thorough bounded="pool of 7 tables (4 path + 3 allocatable); tree-shaped sparse pre-state (target path, one neighbour word per path table, garbage in allocatable frames); recursive index 300; page-table indices (255,511,0,256)"
     //@ obligation C01 C01.recursive_map_to_4kib.shape_p3_absent.parent_rights_include_requested tier=thorough bounded="pool of 7 tables (4 path + 3 allocatable); tree-shaped sparse pre-state (target path, one neighbour word per path table, garbage in allocatable frames); recursive index 300; page-table indices (255,511,0,256)"
     //@ obligation C01 C01.recursive_map_to_4kib.shape_p3_absent.other_addresses_unchanged tier=thorough bounded="pool of 7 tables (4 path + 3 allocatable); tree-shaped sparse pre-state (target path, one neighbour word per path table, garbage in allocatable frames); recursive index 300; page-table indices (255,511,0,256)"
+    //@ obligation C11 C11.recursive_map_to_4kib.shape_p3_absent.other_addresses_unchanged tier=thorough bounded="pool of 7 tables (4 path + 3 allocatable); tree-shaped sparse pre-state (target path, one neighbour word per path table, garbage in allocatable frames); recursive index 300; page-table indices (255,511,0,256)"
     //@ obligation C01 C01.recursive_map_to_4kib.shape_p3_absent.result_reports_page tier=thorough bounded="pool of 7 tables (4 path + 3 allocatable); tree-shaped sparse pre-state (target path, one neighbour word per path table, garbage in allocatable frames); recursive index 300; page-table indices (255,511,0,256)"
     //@ obligation C01 C01.recursive_map_to_4kib.shape_p3_absent.result_reports_frame tier=thorough bounded="pool of 7 tables (4 path + 3 allocatable); tree-shaped sparse pre-state (target path, one neighbour word per path table, garbage in allocatable frames); recursive index 300; page-table indices (255,511,0,256)"
     //@ obligation C11 C11.recursive_map_to_4kib.shape_p3_absent.token_names_page tier=thorough bounded="pool of 7 tables (4 path + 3 allocatable); tree-shaped sparse pre-state (target path, one neighbour word per path table, garbage in allocatable frames); recursive index 300; page-table indices (255,511,0,256)"
@@ -405,9 +414,12 @@ mod verif_c01_recursive_step {
 
     //@ obligation C02 C02.recursive_map_to_4kib.shape_p3_absent.documented_outcome tier=thorough bounded="pool of 7 tables (4 path + 3 allocatable); tree-shaped sparse pre-state (target path, one neighbour word per path table, garbage in allocatable frames); recursive index 300; page-table indices (256,0,510,511)"
     //@ obligation C01 C01.recursive_map_to_4kib.shape_p3_absent.target_translates_to_frame tier=thorough bounded="pool of 7 tables (4 path + 3 allocatable); tree-shaped sparse pre-state (target path, one neighbour word per path table, garbage in allocatable frames); recursive index 300; page-table indices (256,0,510,511)"
+    //@ obligation C11 C11.recursive_map_to_4kib.shape_p3_absent.target_translates_to_frame tier=thorough bounded="pool of 7 tables (4 path + 3 allocatable); tree-shaped sparse pre-state (target path, one neighbour word per path table, garbage in allocatable frames); recursive index 300; page-table indices (256,0,510,511)"
     //@ obligation C01 C01.recursive_map_to_4kib.shape_p3_absent.target_leaf_flags tier=thorough bounded="pool of 7 tables (4 path + 3 allocatable); tree-shaped sparse pre-state (target path, one neighbour word per path table, garbage in allocatable frames); recursive index 300; page-table indices (256,0,510,511)"
+    //@ obligation C11 C11.recursive_map_to_4kib.shape_p3_absent.target_leaf_flags tier=thorough bounded="pool of 7 tables (4 path + 3 allocatable); tree-shaped sparse pre-state (target path, one neighbour word per path table, garbage in allocatable frames); recursive index 300; page-table indices (256,0,510,511)"
     //@ obligation C01 C01.recursive_map_to_4kib.shape_p3_absent.parent_rights_include_requested tier=thorough bounded="pool of 7 tables (4 path + 3 allocatable); tree-shaped sparse pre-state (target path, one neighbour word per path table, garbage in allocatable frames); recursive index 300; page-table indices (256,0,510,511)"
     //@ obligation C01 C01.recursive_map_to_4kib.shape_p3_absent.other_addresses_unchanged tier=thorough bounded="pool of 7 tables (4 path + 3 allocatable); tree-shaped sparse pre-state (target path, one neighbour word per path table, garbage in allocatable frames); recursive index 300; page-table indices (256,0,510,511)"
+    //@ obligation C11 C11.recursive_map_to_4kib.shape_p3_absent.other_addresses_unchanged tier=thorough bounded="pool of 7 tables (4 path + 3 allocatable); tree-shaped sparse pre-state (target path, one neighbour word per path table, garbage in allocatable frames); recursive index 300; page-table indices (256,0,510,511)"
     //@ obligation C01 C01.recursive_map_to_4kib.shape_p3_absent.result_reports_page tier=thorough bounded="pool of 7 tables (4 path + 3 allocatable); tree-shaped sparse pre-state (target path, one neighbour word per path table, garbage in allocatable frames); recursive index 300; page-table indices (256,0,510,511)"
     //@ obligation C01 C01.recursive_map_to_4kib.shape_p3_absent.result_reports_frame tier=thorough bounded="pool of 7 tables (4 path + 3 allocatable); tree-shaped sparse pre-state (target path, one neighbour word per path table, garbage in allocatable frames); recursive index 300; page-table indices (256,0,510,511)"
     //@ obligation C11 C11.recursive_map_to_4kib.shape_p3_absent.token_names_page tier=thorough bounded="pool of 7 tables (4 path + 3 allocatable); tree-shaped sparse pre-state (target path, one neighbour word per path table, garbage in allocatable frames); recursive index 300; page-table indices (256,0,510,511)"
@@ -429,9 +441,12 @@ mod verif_c01_recursive_step {
 
     //@ obligation C02 C02.recursive_map_to_4kib.shape_p3_huge.documented_outcome tier=thorough bounded="pool of 7 tables (4 path + 3 allocatable); tree-shaped sparse pre-state (target path, one neighbour word per path table, garbage in allocatable frames); recursive index 300; page-table indices (255,511,0,256)"
     //@ obligation C01 C01.recursive_map_to_4kib.shape_p3_huge.target_translates_to_frame tier=thorough bounded="pool of 7 tables (4 path + 3 allocatable); tree-shaped sparse pre-state (target path, one neighbour word per path table, garbage in allocatable frames); recursive index 300; page-table indices (255,511,0,256)"
+    //@ obligation C11 C11.recursive_map_to_4kib.shape_p3_huge.target_translates_to_frame tier=thorough bounded="pool of 7 tables (4 path + 3 allocatable); tree-shaped sparse pre-state (target path, one neighbour word per path table, garbage in allocatable frames); recursive index 300; page-table indices (255,511,0,256)"
     //@ obligation C01 C01.recursive_map_to_4kib.shape_p3_huge.target_leaf_flags tier=thorough bounded="pool of 7 tables (4 path + 3 allocatable); tree-shaped sparse pre-state (target path, one neighbour word per path table, garbage in allocatable frames); recursive index 300; page-table indices (255,511,0,256)"
+    //@ obligation C11 C11.recursive_map_to_4kib.shape_p3_huge.target_leaf_flags tier=thorough bounded="pool of 7 tables (4 path + 3 allocatable); tree-shaped sparse pre-state (target path, one neighbour word per path table, garbage in allocatable frames); recursive index 300; page-table indices (255,511,0,256)"
     //@ obligation C01 C01.recursive_map_to_4kib.shape_p3_huge.parent_rights_include_requested tier=thorough bounded="pool of 7 tables (4 path + 3 allocatable); tree-shaped sparse pre-state (target path, one neighbour word per path table, garbage in allocatable frames); recursive index 300; page-table indices (255,511,0,256)"
     //@ obligation C01 C01.recursive_map_to_4kib.shape_p3_huge.other_addresses_unchanged tier=thorough bounded="pool of 7 tables (4 path + 3 allocatable); tree-shaped sparse pre-state (target path, one neighbour word per path table, garbage in allocatable frames); recursive index 300; page-table indices (255,511,0,256)"
+    //@ obligation C11 C11.recursive_map_to_4kib.shape_p3_huge.other_addresses_unchanged tier=thorough bounded="pool of 7 tables (4 path + 3 allocatable); tree-shaped sparse pre-state (target path, one neighbour word per path table, garbage in allocatable frames); recursive index 300; page-table indices (255,511,0,256)"
     //@ obligation C01 C01.recursive_map_to_4kib.shape_p3_huge.result_reports_page tier=thorough bounded="pool of 7 tables (4 path + 3 allocatable); tree-shaped sparse pre-state (target path, one neighbour word per path table, garbage in allocatable frames); recursive index 300; page-table indices (255,511,0,256)"
     //@ obligation C01 C01.recursive_map_to_4kib.shape_p3_huge.result_reports_frame tier=thorough bounded="pool of 7 tables (4 path + 3 allocatable); tree-shaped sparse pre-state (target path, one neighbour word per path table, garbage in allocatable frames); recursive index 300; page-table indices (255,511,0,256)"
     //@ obligation C11 C11.recursive_map_to_4kib.shape_p3_huge.token_names_page tier=thorough bounded="pool of 7 tables (4 path + 3 allocatable); tree-shaped sparse pre-state (target path, one neighbour word per path table, garbage in allocatable frames); recursive index 300; page-table indices (255,511,0,256)"
@@ -453,9 +468,12 @@ mod verif_c01_recursive_step {
 
     //@ obligation C02 C02.recursive_map_to_4kib.shape_p3_huge.documented_outcome tier=thorough bounded="pool of 7 tables (4 path + 3 allocatable); tree-shaped sparse pre-state (target path, one neighbour word per path table, garbage in allocatable frames); recursive index 300; page-table indices (256,0,510,511)"
     //@ obligation C01 C01.recursive_map_to_4kib.shape_p3_huge.target_translates_to_frame tier=thorough bounded="pool of 7 tables (4 path + 3 allocatable); tree-shaped sparse pre-state (target path, one neighbour word per path table, garbage in allocatable frames); recursive index 300; page-table indices (256,0,510,511)"
+    //@ obligation C11 C11.recursive_map_to_4kib.shape_p3_huge.target_translates_to_frame tier=thorough bounded="pool of 7 tables (4 path + 3 allocatable); tree-shaped sparse pre-state (target path, one neighbour word per path table, garbage in allocatable frames); recursive index 300; page-table indices (256,0,510,511)"
     //@ obligation C01 C01.recursive_map_to_4kib.shape_p3_huge.target_leaf_flags tier=thorough bounded="pool of 7 tables (4 path + 3 allocatable); tree-shaped sparse pre-state (target path, one neighbour word per path table, garbage in allocatable frames); recursive index 300; page-table indices (256,0,510,511)"
+    //@ obligation C11 C11.recursive_map_to_4kib.shape_p3_huge.target_leaf_flags tier=thorough bounded="pool of 7 tables (4 path + 3 allocatable); tree-shaped sparse pre-state (target path, one neighbour word per path table, garbage in allocatable frames); recursive index 300; page-table indices (256,0,510,511)"
     //@ obligation C01 C01.recursive_map_to_4kib.shape_p3_huge.parent_rights_include_requested tier=thorough bounded="pool of 7 tables (4 path + 3 allocatable); tree-shaped sparse pre-state (target path, one neighbour word per path table, garbage in allocatable frames); recursive index 300; page-table indices (256,0,510,511)"
     //@ obligation C01 C01.recursive_map_to_4kib.shape_p3_huge.other_addresses_unchanged tier=thorough bounded="pool of 7 tables (4 path + 3 allocatable); tree-shaped sparse pre-state (target path, one neighbour word per path table, garbage in allocatable frames); recursive index 300; page-table indices (256,0,510,511)"
+    //@ obligation C11 C11.recursive_map_to_4kib.shape_p3_huge.other_addresses_unchanged tier=thorough bounded="pool of 7 tables (4 path + 3 allocatable); tree-shaped sparse pre-state (target path, one neighbour word per path table, garbage in allocatable frames); recursive index 300; page-table indices (256,0,510,511)"
     //@ obligation C01 C01.recursive_map_to_4kib.shape_p3_huge.result_reports_page tier=thorough bounded="pool of 7 tables (4 path + 3 allocatable); tree-shaped sparse pre-state (target path, one neighbour word per path table, garbage in allocatable frames); recursive index 300; page-table indices (256,0,510,511)"
     //@ obligation C01 C01.recursive_map_to_4kib.shape_p3_huge.result_reports_frame tier=thorough bounded="pool of 7 tables (4 path + 3 allocatable); tree-shaped sparse pre-state (target path, one neighbour word per path table, garbage in allocatable frames); recursive index 300; page-table indices (256,0,510,511)"
     //@ obligation C11 C11.recursive_map_to_4kib.shape_p3_huge.token_names_page tier=thorough bounded="pool of 7 tables (4 path + 3 allocatable); tree-shaped sparse pre-state (target path, one neighbour word per path table, garbage in allocatable frames); recursive index 300; page-table indices (256,0,510,511)"
@@ -477,9 +495,12 @@ mod verif_c01_recursive_step {
 
     //@ obligation C02 C02.recursive_map_to_4kib.shape_p2_absent.documented_outcome tier=thorough bounded="pool of 7 tables (4 path + 3 allocatable); tree-shaped sparse pre-state (target path, one neighbour word per path table, garbage in allocatable frames); recursive index 300; page-table indices (255,511,0,256)"
     //@ obligation C01 C01.recursive_map_to_4kib.shape_p2_absent.target_translates_to_frame tier=thorough bounded="pool of 7 tables (4 path + 3 allocatable); tree-shaped sparse pre-state (target path, one neighbour word per path table, garbage in allocatable frames); recursive index 300; page-table indices (255,511,0,256)"
+    //@ obligation C11 C11.recursive_map_to_4kib.shape_p2_absent.target_translates_to_frame tier=thorough bounded="pool of 7 tables (4 path + 3 allocatable); tree-shaped sparse pre-state (target path, one neighbour word per path table, garbage in allocatable frames); recursive index 300; page-table indices (255,511,0,256)"
     //@ obligation C01 C01.recursive_map_to_4kib.shape_p2_absent.target_leaf_flags tier=thorough bounded="pool of 7 tables (4 path + 3 allocatable); tree-shaped sparse pre-state (target path, one neighbour word per path table, garbage in allocatable frames); recursive index 300; page-table indices (255,511,0,256)"
+    //@ obligation C11 C11.recursive_map_to_4kib.shape_p2_absent.target_leaf_flags tier=thorough bounded="pool of 7 tables (4 path + 3 allocatable); tree-shaped sparse pre-state (target path, one neighbour word per path table, garbage in allocatable frames); recursive index 300; page-table indices (255,511,0,256)"
     //@ obligation C01 C01.recursive_map_to_4kib.shape_p2_absent.parent_rights_include_requested tier=thorough bounded="pool of 7 tables (4 path + 3 allocatable); tree-shaped sparse pre-state (target path, one neighbour word per path table, garbage in allocatable frames); recursive index 300; page-table indices (255,511,0,256)"
     //@ obligation C01 C01.recursive_map_to_4kib.shape_p2_absent.other_addresses_unchanged tier=thorough bounded="pool of 7 tables (4 path + 3 allocatable); tree-shaped sparse pre-state (target path, one neighbour word per path table, garbage in allocatable frames); recursive index 300; page-table indices (255,511,0,256)"
+    //@ obligation C11 C11.recursive_map_to_4kib.shape_p2_absent.other_addresses_unchanged tier=thorough bounded="pool of 7 tables (4 path + 3 allocatable); tree-shaped sparse pre-state (target path, one neighbour word per path table, garbage in allocatable frames); recursive index 300; page-table indices (255,511,0,256)"
     //@ obligation C01 C01.recursive_map_to_4kib.shape_p2_absent.result_reports_page tier=thorough bounded="pool of 7 tables (4 path + 3 allocatable); tree-shaped sparse pre-state (target path, one neighbour word per path table, garbage in allocatable frames); recursive index 300; page-table indices (255,511,0,256)"
     //@ obligation C01 C01.recursive_map_to_4kib.shape_p2_absent.result_reports_frame tier=thorough bounded="pool of 7 tables (4 path + 3 allocatable); tree-shaped sparse pre-state (target path, one neighbour word per path table, garbage in allocatable frames); recursive index 300; page-table indices (255,511,0,256)"
     //@ obligation C11 C11.recursive_map_to_4kib.shape_p2_absent.token_names_page tier=thorough bounded="pool of 7 tables (4 path + 3 allocatable); tree-shaped sparse pre-state (target path, one neighbour word per path table, garbage in allocatable frames); recursive index 300; page-table indices (255,511,0,256)"
@@ -501,9 +522,12 @@ mod verif_c01_recursive_step {
 
     //@ obligation C02 C02.recursive_map_to_4kib.shape_p2_absent.documented_outcome tier=thorough bounded="pool of 7 tables (4 path + 3 allocatable); tree-shaped sparse pre-state (target path, one neighbour word per path table, garbage in allocatable frames); recursive index 300; page-table indices (256,0,510,511)"
     //@ obligation C01 C01.recursive_map_to_4kib.shape_p2_absent.target_translates_to_frame tier=thorough bounded="pool of 7 tables (4 path + 3 allocatable); tree-shaped sparse pre-state (target path, one neighbour word per path table, garbage in allocatable frames); recursive index 300; page-table indices (256,0,510,511)"
+    //@ obligation C11 C11.recursive_map_to_4kib.shape_p2_absent.target_translates_to_frame tier=thorough bounded="pool of 7 tables (4 path + 3 allocatable); tree-shaped sparse pre-state (target path, one neighbour word per path table, garbage in allocatable frames); recursive index 300; page-table indices (256,0,510,511)"
     //@ obligation C01 C01.recursive_map_to_4kib.shape_p2_absent.target_leaf_flags tier=thorough bounded="pool of 7 tables (4 path + 3 allocatable); tree-shaped sparse pre-state (target path, one neighbour word per path table, garbage in allocatable frames); recursive index 300; page-table indices (256,0,510,511)"
+    //@ obligation C11 C11.recursive_map_to_4kib.shape_p2_absent.target_leaf_flags tier=thorough bounded="pool of 7 tables (4 path + 3 allocatable); tree-shaped sparse pre-state (target path, one neighbour word per path table, garbage in allocatable frames); recursive index 300; page-table indices (256,0,510,511)"
     //@ obligation C01 C01.recursive_map_to_4kib.shape_p2_absent.parent_rights_include_requested tier=thorough bounded="pool of 7 tables (4 path + 3 allocatable); tree-shaped sparse pre-state (target path, one neighbour word per path table, garbage in allocatable frames); recursive index 300; page-table indices (256,0,510,511)"
     //@ obligation C01 C01.recursive_map_to_4kib.shape_p2_absent.other_addresses_unchanged tier=thorough bounded="pool of 7 tables (4 path + 3 allocatable); tree-shaped sparse pre-state (target path, one neighbour word per path table, garbage in allocatable frames); recursive index 300; page-table indices (256,0,510,511)"
+    //@ obligation C11 C11.recursive_map_to_4kib.shape_p2_absent.other_addresses_unchanged tier=thorough bounded="pool of 7 tables (4 path + 3 allocatable); tree-shaped sparse pre-state (target path, one neighbour word per path table, garbage in allocatable frames); recursive index 300; page-table indices (256,0,510,511)"
     //@ obligation C01 C01.recursive_map_to_4kib.shape_p2_absent.result_reports_page tier=thorough bounded="pool of 7 tables (4 path + 3 allocatable); tree-shaped sparse pre-state (target path, one neighbour word per path table, garbage in allocatable frames); recursive index 300; page-table indices (256,0,510,511)"
     //@ obligation C01 C01.recursive_map_to_4kib.shape_p2_absent.result_reports_frame tier=thorough bounded="pool of 7 tables (4 path + 3 allocatable); tree-shaped sparse pre-state (target path, one neighbour word per path table, garbage in allocatable frames); recursive index 300; page-table indices (256,0,510,511)"
     //@ obligation C11 C11.recursive_map_to_4kib.shape_p2_absent.token_names_page tier=thorough bounded="pool of 7 tables (4 path + 3 allocatable); tree-shaped sparse pre-state (target path, one neighbour word per path table, garbage in allocatable frames); recursive index 300; page-table indices (256,0,510,511)"
@@ -525,9 +549,12 @@ mod verif_c01_recursive_step {
 
     //@ obligation C02 C02.recursive_map_to_4kib.shape_p2_huge.documented_outcome tier=thorough bounded="pool of 7 tables (4 path + 3 allocatable); tree-shaped sparse pre-state (target path, one neighbour word per path table, garbage in allocatable frames); recursive index 300; page-table indices (255,511,0,256)"
     //@ obligation C01 C01.recursive_map_to_4kib.shape_p2_huge.target_translates_to_frame tier=thorough bounded="pool of 7 tables (4 path + 3 allocatable); tree-shaped sparse pre-state (target path, one neighbour word per path table, garbage in allocatable frames); recursive index 300; page-table indices (255,511,0,256)"
+    //@ obligation C11 C11.recursive_map_to_4kib.shape_p2_huge.target_translates_to_frame tier=thorough bounded="pool of 7 tables (4 path + 3 allocatable); tree-shaped sparse pre-state (target path, one neighbour word per path table, garbage in allocatable frames); recursive index 300; page-table indices (255,511,0,256)"
     //@ obligation C01 C01.recursive_map_to_4kib.shape_p2_huge.target_leaf_flags tier=thorough bounded="pool of 7 tables (4 path + 3 allocatable); tree-shaped sparse pre-state (target path, one neighbour word per path table, garbage in allocatable frames); recursive index 300; page-table indices (255,511,0,256)"
+    //@ obligation C11 C11.recursive_map_to_4kib.shape_p2_huge.target_leaf_flags tier=thorough bounded="pool of 7 tables (4 path + 3 allocatable); tree-shaped sparse pre-state (target path, one neighbour word per path table, garbage in allocatable frames); recursive index 300; page-table indices (255,511,0,256)"
     //@ obligation C01 C01.recursive_map_to_4kib.shape_p2_huge.parent_rights_include_requested tier=thorough bounded="pool of 7 tables (4 path + 3 allocatable); tree-shaped sparse pre-state (target path, one neighbour word per path table, garbage in allocatable frames); recursive index 300; page-table indices (255,511,0,256)"
     //@ obligation C01 C01.recursive_map_to_4kib.shape_p2_huge.other_addresses_unchanged tier=thorough bounded="pool of 7 tables (4 path + 3 allocatable); tree-shaped sparse pre-state (target path, one neighbour word per path table, garbage in allocatable frames); recursive index 300; page-table indices (255,511,0,256)"
+    //@ obligation C11 C11.recursive_map_to_4kib.shape_p2_huge.other_addresses_unchanged tier=thorough bounded="pool of 7 tables (4 path + 3 allocatable); tree-shaped sparse pre-state (target path, one neighbour word per path table, garbage in allocatable frames); recursive index 300; page-table indices (255,511,0,256)"
     //@ obligation C01 C01.recursive_map_to_4kib.shape_p2_huge.result_reports_page tier=thorough bounded="pool of 7 tables (4 path + 3 allocatable); tree-shaped sparse pre-state (target path, one neighbour word per path table, garbage in allocatable frames); recursive index 300; page-table indices (255,511,0,256)"
     //@ obligation C01 C01.recursive_map_to_4kib.shape_p2_huge.result_reports_frame tier=thorough bounded="pool of 7 tables (4 path + 3 allocatable); tree-shaped sparse pre-state (target path, one neighbour word per path table, garbage in allocatable frames); recursive index 300; page-table indices (255,511,0,256)"
     //@ obligation C11 C11.recursive_map_to_4kib.shape_p2_huge.token_names_page tier=thorough bounded="pool of 7 tables (4 path + 3 allocatable); tree-shaped sparse pre-state (target path, one neighbour word per path table, garbage in allocatable frames); recursive index 300; page-table indices (255,511,0,256)"
@@ -549,9 +576,12 @@ mod verif_c01_recursive_step {
 
     //@ obligation C02 C02.recursive_map_to_4kib.shape_p2_huge.documented_outcome tier=thorough bounded="pool of 7 tables (4 path + 3 allocatable); tree-shaped sparse pre-state (target path, one neighbour word per path table, garbage in allocatable frames); recursive index 300; page-table indices (256,0,510,511)"
     //@ obligation C01 C01.recursive_map_to_4kib.shape_p2_huge.target_translates_to_frame tier=thorough bounded="pool of 7 tables (4 path + 3 allocatable); tree-shaped sparse pre-state (target path, one neighbour word per path table, garbage in allocatable frames); recursive index 300; page-table indices (256,0,510,511)"
+    //@ obligation C11 C11.recursive_map_to_4kib.shape_p2_huge.target_translates_to_frame tier=thorough bounded="pool of 7 tables (4 path + 3 allocatable); tree-shaped sparse pre-state (target path, one neighbour word per path table, garbage in allocatable frames); recursive index 300; page-table indices (256,0,510,511)"
     //@ obligation C01 C01.recursive_map_to_4kib.shape_p2_huge.target_leaf_flags tier=thorough bounded="pool of 7 tables (4 path + 3 allocatable); tree-shaped sparse pre-state (target path, one neighbour word per path table, garbage in allocatable frames); recursive index 300; page-table indices (256,0,510,511)"
+    //@ obligation C11 C11.recursive_map_to_4kib.shape_p2_huge.target_leaf_flags tier=thorough bounded="pool of 7 tables (4 path + 3 allocatable); tree-shaped sparse pre-state (target path, one neighbour word per path table, garbage in allocatable frames); recursive index 300; page-table indices (256,0,510,511)"
     //@ obligation C01 C01.recursive_map_to_4kib.shape_p2_huge.parent_rights_include_requested tier=thorough bounded="pool of 7 tables (4 path + 3 allocatable); tree-shaped sparse pre-state (target path, one neighbour word per path table, garbage in allocatable frames); recursive index 300; page-table indices (256,0,510,511)"
     //@ obligation C01 C01.recursive_map_to_4kib.shape_p2_huge.other_addresses_unchanged tier=thorough bounded="pool of 7 tables (4 path + 3 allocatable); tree-shaped sparse pre-state (target path, one neighbour word per path table, garbage in allocatable frames); recursive index 300; page-table indices (256,0,510,511)"
+    //@ obligation C11 C11.recursive_map_to_4kib.shape_p2_huge.other_addresses_unchanged tier=thorough bounded="pool of 7 tables (4 path + 3 allocatable); tree-shaped sparse pre-state (target path, one neighbour word per path table, garbage in allocatable frames); recursive index 300; page-table indices (256,0,510,511)"
     //@ obligation C01 C01.recursive_map_to_4kib.shape_p2_huge.result_reports_page tier=thorough bounded="pool of 7 tables (4 path + 3 allocatable); tree-shaped sparse pre-state (target path, one neighbour word per path table, garbage in allocatable frames); recursive index 300; page-table indices (256,0,510,511)"
     //@ obligation C01 C01.recursive_map_to_4kib.shape_p2_huge.result_reports_frame tier=thorough bounded="pool of 7 tables (4 path + 3 allocatable); tree-shaped sparse pre-state (target path, one neighbour word per path table, garbage in allocatable frames); recursive index 300; page-table indices (256,0,510,511)"
     //@ obligation C11 C11.recursive_map_to_4kib.shape_p2_huge.token_names_page tier=thorough bounded="pool of 7 tables (4 path + 3 allocatable); tree-shaped sparse pre-state (target path, one neighbour word per path table, garbage in allocatable frames); recursive index 300; page-table indices (256,0,510,511)"
@@ -573,9 +603,12 @@ mod verif_c01_recursive_step {
 
     //@ obligation C02 C02.recursive_map_to_4kib.shape_p1_absent.documented_outcome tier=thorough bounded="pool of 7 tables (4 path + 3 allocatable); tree-shaped sparse pre-state (target path, one neighbour word per path table, garbage in allocatable frames); recursive index 300; page-table indices (255,511,0,256)"
     //@ obligation C01 C01.recursive_map_to_4kib.shape_p1_absent.target_translates_to_frame tier=thorough bounded="pool of 7 tables (4 path + 3 allocatable); tree-shaped sparse pre-state (target path, one neighbour word per path table, garbage in allocatable frames); recursive index 300; page-table indices (255,511,0,256)"
+    //@ obligation C11 C11.recursive_map_to_4kib.shape_p1_absent.target_translates_to_frame tier=thorough bounded="pool of 7 tables (4 path + 3 allocatable); tree-shaped sparse pre-state (target path, one neighbour word per path table, garbage in allocatable frames); recursive index 300; page-table indices (255,511,0,256)"
     //@ obligation C01 C01.recursive_map_to_4kib.shape_p1_absent.target_leaf_flags tier=thorough bounded="pool of 7 tables (4 path + 3 allocatable); tree-shaped sparse pre-state (target path, one neighbour word per path table, garbage in allocatable frames); recursive index 300; page-table indices (255,511,0,256)"
+    //@ obligation C11 C11.recursive_map_to_4kib.shape_p1_absent.target_leaf_flags tier=thorough bounded="pool of 7 tables (4 path + 3 allocatable); tree-shaped sparse pre-state (target path, one neighbour word per path table, garbage in allocatable frames); recursive index 300; page-table indices (255,511,0,256)"
     //@ obligation C01 C01.recursive_map_to_4kib.shape_p1_absent.parent_rights_include_requested tier=thorough bounded="pool of 7 tables (4 path + 3 allocatable); tree-shaped sparse pre-state (target path, one neighbour word per path table, garbage in allocatable frames); recursive index 300; page-table indices (255,511,0,256)"
     //@ obligation C01 C01.recursive_map_to_4kib.shape_p1_absent.other_addresses_unchanged tier=thorough bounded="pool of 7 tables (4 path + 3 allocatable); tree-shaped sparse pre-state (target path, one neighbour word per path table, garbage in allocatable frames); recursive index 300; page-table indices (255,511,0,256)"
+    //@ obligation C11 C11.recursive_map_to_4kib.shape_p1_absent.other_addresses_unchanged tier=thorough bounded="pool of 7 tables (4 path + 3 allocatable); tree-shaped sparse pre-state (target path, one neighbour word per path table, garbage in allocatable frames); recursive index 300; page-table indices (255,511,0,256)"
     //@ obligation C01 C01.recursive_map_to_4kib.shape_p1_absent.result_reports_page tier=thorough bounded="pool of 7 tables (4 path + 3 allocatable); tree-shaped sparse pre-state (target path, one neighbour word per path table, garbage in allocatable frames); recursive index 300; page-table indices (255,511,0,256)"
     //@ obligation C01 C01.recursive_map_to_4kib.shape_p1_absent.result_reports_frame tier=thorough bounded="pool of 7 tables (4 path + 3 allocatable); tree-shaped sparse pre-state (target path, one neighbour word per path table, garbage in allocatable frames); recursive index 300; page-table indices (255,511,0,256)"
     //@ obligation C11 C11.recursive_map_to_4kib.shape_p1_absent.token_names_page tier=thorough bounded="pool of 7 tables (4 path + 3 allocatable); tree-shaped sparse pre-state (target path, one neighbour word per path table, garbage in allocatable frames); recursive index 300; page-table indices (255,511,0,256)"
@@ -597,9 +630,12 @@ mod verif_c01_recursive_step {
 
     //@ obligation C02 C02.recursive_map_to_4kib.shape_p1_absent.documented_outcome tier=thorough bounded="pool of 7 tables (4 path + 3 allocatable); tree-shaped sparse pre-state (target path, one neighbour word per path table, garbage in allocatable frames); recursive index 300; page-table indices (256,0,510,511)"
     //@ obligation C01 C01.recursive_map_to_4kib.shape_p1_absent.target_translates_to_frame tier=thorough bounded="pool of 7 tables (4 path + 3 allocatable); tree-shaped sparse pre-state (target path, one neighbour word per path table, garbage in allocatable frames); recursive index 300; page-table indices (256,0,510,511)"
+    //@ obligation C11 C11.recursive_map_to_4kib.shape_p1_absent.target_translates_to_frame tier=thorough bounded="pool of 7 tables (4 path + 3 allocatable); tree-shaped sparse pre-state (target path, one neighbour word per path table, garbage in allocatable frames); recursive index 300; page-table indices (256,0,510,511)"
     //@ obligation C01 C01.recursive_map_to_4kib.shape_p1_absent.target_leaf_flags tier=thorough bounded="pool of 7 tables (4 path + 3 allocatable); tree-shaped sparse pre-state (target path, one neighbour word per path table, garbage in allocatable frames); recursive index 300; page-table indices (256,0,510,511)"
+    //@ obligation C11 C11.recursive_map_to_4kib.shape_p1_absent.target_leaf_flags tier=thorough bounded="pool of 7 tables (4 path + 3 allocatable); tree-shaped sparse pre-state (target path, one neighbour word per path table, garbage in allocatable frames); recursive index 300; page-table indices (256,0,510,511)"
     //@ obligation C01 C01.recursive_map_to_4kib.shape_p1_absent.parent_rights_include_requested tier=thorough bounded="pool of 7 tables (4 path + 3 allocatable); tree-shaped sparse pre-state (target path, one neighbour word per path table, garbage in allocatable frames); recursive index 300; page-table indices (256,0,510,511)"
     //@ obligation C01 C01.recursive_map_to_4kib.shape_p1_absent.other_addresses_unchanged tier=thorough bounded="pool of 7 tables (4 path + 3 allocatable); tree-shaped sparse pre-state (target path, one neighbour word per path table, garbage in allocatable frames); recursive index 300; page-table indices (256,0,510,511)"
+    //@ obligation C11 C11.recursive_map_to_4kib.shape_p1_absent.other_addresses_unchanged tier=thorough bounded="pool of 7 tables (4 path + 3 allocatable); tree-shaped sparse pre-state (target path, one neighbour word per path table, garbage in allocatable frames); recursive index 300; page-table indices (256,0,510,511)"
     //@ obligation C01 C01.recursive_map_to_4kib.shape_p1_absent.result_reports_page tier=thorough bounded="pool of 7 tables (4 path + 3 allocatable); tree-shaped sparse pre-state (target path, one neighbour word per path table, garbage in allocatable frames); recursive index 300; page-table indices (256,0,510,511)"
     //@ obligation C01 C01.recursive_map_to_4kib.shape_p1_absent.result_reports_frame tier=thorough bounded="pool of 7 tables (4 path + 3 allocatable); tree-shaped sparse pre-state (target path, one neighbour word per path table, garbage in allocatable frames); recursive index 300; page-table indices (256,0,510,511)"
     //@ obligation C11 C11.recursive_map_to_4kib.shape_p1_absent.token_names_page tier=thorough bounded="pool of 7 tables (4 path + 3 allocatable); tree-shaped sparse pre-state (target path, one neighbour word per path table, garbage in allocatable frames); recursive index 300; page-table indices (256,0,510,511)"
@@ -621,9 +657,12 @@ mod verif_c01_recursive_step {
 
     //@ obligation C02 C02.recursive_map_to_4kib.shape_p1_leaf.documented_outcome tier=thorough bounded="pool of 7 tables (4 path + 3 allocatable); tree-shaped sparse pre-state (target path, one neighbour word per path table, garbage in allocatable frames); recursive index 300; page-table indices (255,511,0,256)"
     //@ obligation C01 C01.recursive_map_to_4kib.shape_p1_leaf.target_translates_to_frame tier=thorough bounded="pool of 7 tables (4 path + 3 allocatable); tree-shaped sparse pre-state (target path, one neighbour word per path table, garbage in allocatable frames); recursive index 300; page-table indices (255,511,0,256)"
+    //@ obligation C11 C11.recursive_map_to_4kib.shape_p1_leaf.target_translates_to_frame tier=thorough bounded="pool of 7 tables (4 path + 3 allocatable); tree-shaped sparse pre-state (target path, one neighbour word per path table, garbage in allocatable frames); recursive index 300; page-table indices (255,511,0,256)"
     //@ obligation C01 C01.recursive_map_to_4kib.shape_p1_leaf.target_leaf_flags tier=thorough bounded="pool of 7 tables (4 path + 3 allocatable); tree-shaped sparse pre-state (target path, one neighbour word per path table, garbage in allocatable frames); recursive index 300; page-table indices (255,511,0,256)"
+    //@ obligation C11 C11.recursive_map_to_4kib.shape_p1_leaf.target_leaf_flags tier=thorough bounded="pool of 7 tables (4 path + 3 allocatable); tree-shaped sparse pre-state (target path, one neighbour word per path table, garbage in allocatable frames); recursive index 300; page-table indices (255,511,0,256)"
     //@ obligation C01 C01.recursive_map_to_4kib.shape_p1_leaf.parent_rights_include_requested tier=thorough bounded="pool of 7 tables (4 path + 3 allocatable); tree-shaped sparse pre-state (target path, one neighbour word per path table, garbage in allocatable frames); recursive index 300; page-table indices (255,511,0,256)"
     //@ obligation C01 C01.recursive_map_to_4kib.shape_p1_leaf.other_addresses_unchanged tier=thorough bounded="pool of 7 tables (4 path + 3 allocatable); tree-shaped sparse pre-state (target path, one neighbour word per path table, garbage in allocatable frames); recursive index 300; page-table indices (255,511,0,256)"
+    //@ obligation C11 C11.recursive_map_to_4kib.shape_p1_leaf.other_addresses_unchanged tier=thorough bounded="pool of 7 tables (4 path + 3 allocatable); tree-shaped sparse pre-state (target path, one neighbour word per path table, garbage in allocatable frames); recursive index 300; page-table indices (255,511,0,256)"
     //@ obligation C01 C01.recursive_map_to_4kib.shape_p1_leaf.result_reports_page tier=thorough bounded="pool of 7 tables (4 path + 3 allocatable); tree-shaped sparse pre-state (target path, one neighbour word per path table, garbage in allocatable frames); recursive index 300; page-table indices (255,511,0,256)"
     //@ obligation C01 C01.recursive_map_to_4kib.shape_p1_leaf.result_reports_frame tier=thorough bounded="pool of 7 tables (4 path + 3 allocatable); tree-shaped sparse pre-state (target path, one neighbour word per path table, garbage in allocatable frames); recursive index 300; page-table indices (255,511,0,256)"
     //@ obligation C11 C11.recursive_map_to_4kib.shape_p1_leaf.token_names_page tier=thorough bounded="pool of 7 tables (4 path + 3 allocatable); tree-shaped sparse pre-state (target path, one neighbour word per path table, garbage in allocatable frames); recursive index 300; page-table indices (255,511,0,256)"
@@ -645,9 +684,12 @@ mod verif_c01_recursive_step {
 
     //@ obligation C02 C02.recursive_map_to_4kib.shape_p1_leaf.documented_outcome tier=thorough bounded="pool of 7 tables (4 path + 3 allocatable); tree-shaped sparse pre-state (target path, one neighbour word per path table, garbage in allocatable frames); recursive index 300; page-table indices (256,0,510,511)"
     //@ obligation C01 C01.recursive_map_to_4kib.shape_p1_leaf.target_translates_to_frame tier=thorough bounded="pool of 7 tables (4 path + 3 allocatable); tree-shaped sparse pre-state (target path, one neighbour word per path table, garbage in allocatable frames); recursive index 300; page-table indices (256,0,510,511)"
+    //@ obligation C11 C11.recursive_map_to_4kib.shape_p1_leaf.target_translates_to_frame tier=thorough bounded="pool of 7 tables (4 path + 3 allocatable); tree-shaped sparse pre-state (target path, one neighbour word per path table, garbage in allocatable frames); recursive index 300; page-table indices (256,0,510,511)"
     //@ obligation C01 C01.recursive_map_to_4kib.shape_p1_leaf.target_leaf_flags tier=thorough bounded="pool of 7 tables (4 path + 3 allocatable); tree-shaped sparse pre-state (target path, one neighbour word per path table, garbage in allocatable frames); recursive index 300; page-table indices (256,0,510,511)"
+    //@ obligation C11 C11.recursive_map_to_4kib.shape_p1_leaf.target_leaf_flags tier=thorough bounded="pool of 7 tables (4 path + 3 allocatable); tree-shaped sparse pre-state (target path, one neighbour word per path table, garbage in allocatable frames); recursive index 300; page-table indices (256,0,510,511)"
     //@ obligation C01 C01.recursive_map_to_4kib.shape_p1_leaf.parent_rights_include_requested tier=thorough bounded="pool of 7 tables (4 path + 3 allocatable); tree-shaped sparse pre-state (target path, one neighbour word per path table, garbage in allocatable frames); recursive index 300; page-table indices (256,0,510,511)"
     //@ obligation C01 C01.recursive_map_to_4kib.shape_p1_leaf.other_addresses_unchanged tier=thorough bounded="pool of 7 tables (4 path + 3 allocatable); tree-shaped sparse pre-state (target path, one neighbour word per path table, garbage in allocatable frames); recursive index 300; page-table indices (256,0,510,511)"
+    //@ obligation C11 C11.recursive_map_to_4kib.shape_p1_leaf.other_addresses_unchanged tier=thorough bounded="pool of 7 tables (4 path + 3 allocatable); tree-shaped sparse pre-state (target path, one neighbour word per path table, garbage in allocatable frames); recursive index 300; page-table indices (256,0,510,511)"
     //@ obligation C01 C01.recursive_map_to_4kib.shape_p1_leaf.result_reports_page tier=thorough bounded="pool of 7 tables (4 path + 3 allocatable); tree-shaped sparse pre-state (target path, one neighbour word per path table, garbage in allocatable frames); recursive index 300; page-table indices (256,0,510,511)"
     //@ obligation C01 C01.recursive_map_to_4kib.shape_p1_leaf.result_reports_frame tier=thorough bounded="pool of 7 tables (4 path + 3 allocatable); tree-shaped sparse pre-state (target path, one neighbour word per path table, garbage in allocatable frames); recursive index 300; page-table indices (256,0,510,511)"
     //@ obligation C11 C11.recursive_map_to_4kib.shape_p1_leaf.token_names_page tier=thorough bounded="pool of 7 tables (4 path + 3 allocatable); tree-shaped sparse pre-state (target path, one neighbour word per path table, garbage in allocatable frames); recursive index 300; page-table indices (256,0,510,511)"
@@ -672,7 +714,9 @@ mod verif_c01_recursive_step {
     //@ obligation C01 C01.recursive_unmap_4kib.shape_p4_absent.reports_mapped_frame tier=thorough bounded="pool of 7 tables (4 path + 3 allocatable); tree-shaped sparse pre-state (target path, one neighbour word per path table, garbage in allocatable frames); recursive index 300; page-table indices (255,511,0,256)"
     //@ obligation C11 C11.recursive_unmap_4kib.shape_p4_absent.token_names_page tier=thorough bounded="pool of 7 tables (4 path + 3 allocatable); tree-shaped sparse pre-state (target path, one neighbour word per path table, garbage in allocatable frames); recursive index 300; page-table indices (255,511,0,256)"
     //@ obligation C01 C01.recursive_unmap_4kib.shape_p4_absent.target_after tier=thorough bounded="pool of 7 tables (4 path + 3 allocatable); tree-shaped sparse pre-state (target path, one neighbour word per path table, garbage in allocatable frames); recursive index 300; page-table indices (255,511,0,256)"
+    //@ obligation C11 C11.recursive_unmap_4kib.shape_p4_absent.target_after tier=thorough bounded="pool of 7 tables (4 path + 3 allocatable); tree-shaped sparse pre-state (target path, one neighbour word per path table, garbage in allocatable frames); recursive index 300; page-table indices (255,511,0,256)"
     //@ obligation C01 C01.recursive_unmap_4kib.shape_p4_absent.other_addresses_unchanged tier=thorough bounded="pool of 7 tables (4 path + 3 allocatable); tree-shaped sparse pre-state (target path, one neighbour word per path table, garbage in allocatable frames); recursive index 300; page-table indices (255,511,0,256)"
+    //@ obligation C11 C11.recursive_unmap_4kib.shape_p4_absent.other_addresses_unchanged tier=thorough bounded="pool of 7 tables (4 path + 3 allocatable); tree-shaped sparse pre-state (target path, one neighbour word per path table, garbage in allocatable frames); recursive index 300; page-table indices (255,511,0,256)"
     //@ obligation C02 C02.recursive_unmap_4kib.shape_p4_absent.error_leaves_every_mapping tier=thorough bounded="pool of 7 tables (4 path + 3 allocatable); tree-shaped sparse pre-state (target path, one neighbour word per path table, garbage in allocatable frames); recursive index 300; page-table indices (255,511,0,256)"
     //@ obligation C09 C09.recursive_unmap_4kib.shape_p4_absent.only_dictated_slots_change tier=thorough bounded="pool of 7 tables (4 path + 3 allocatable); tree-shaped sparse pre-state (target path, one neighbour word per path table, garbage in allocatable frames); recursive index 300; page-table indices (255,511,0,256)"
     //@ obligation C09 C09.recursive_unmap_4kib.shape_p4_absent.no_frames_requested_or_zeroed tier=thorough bounded="pool of 7 tables (4 path + 3 allocatable); tree-shaped sparse pre-state (target path, one neighbour word per path table, garbage in allocatable frames); recursive index 300; page-table indices (255,511,0,256)"
@@ -691,7 +735,9 @@ mod verif_c01_recursive_step {
     //@ obligation C01 C01.recursive_unmap_4kib.shape_p4_absent.reports_mapped_frame bounded="pool of 7 tables (4 path + 3 allocatable); tree-shaped sparse pre-state (target path, one neighbour word per path table, garbage in allocatable frames); recursive index 300; page-table indices (256,0,510,511)"
     //@ obligation C11 C11.recursive_unmap_4kib.shape_p4_absent.token_names_page bounded="pool of 7 tables (4 path + 3 allocatable); tree-shaped sparse pre-state (target path, one neighbour word per path table, garbage in allocatable frames); recursive index 300; page-table indices (256,0,510,511)"
     //@ obligation C01 C01.recursive_unmap_4kib.shape_p4_absent.target_after bounded="pool of 7 tables (4 path + 3 allocatable); tree-shaped sparse pre-state (target path, one neighbour word per path table, garbage in allocatable frames); recursive index 300; page-table indices (256,0,510,511)"
+    //@ obligation C11 C11.recursive_unmap_4kib.shape_p4_absent.target_after bounded="pool of 7 tables (4 path + 3 allocatable); tree-shaped sparse pre-state (target path, one neighbour word per path table, garbage in allocatable frames); recursive index 300; page-table indices (256,0,510,511)"
     //@ obligation C01 C01.recursive_unmap_4kib.shape_p4_absent.other_addresses_unchanged bounded="pool of 7 tables (4 path + 3 allocatable); tree-shaped sparse pre-state (target path, one neighbour word per path table, garbage in allocatable frames); recursive index 300; page-table indices (256,0,510,511)"
+    //@ obligation C11 C11.recursive_unmap_4kib.shape_p4_absent.other_addresses_unchanged bounded="pool of 7 tables (4 path + 3 allocatable); tree-shaped sparse pre-state (target path, one neighbour word per path table, garbage in allocatable frames); recursive index 300; page-table indices (256,0,510,511)"
     //@ obligation C02 C02.recursive_unmap_4kib.shape_p4_absent.error_leaves_every_mapping bounded="pool of 7 tables (4 path + 3 allocatable); tree-shaped sparse pre-state (target path, one neighbour word per path table, garbage in allocatable frames); recursive index 300; page-table indices (256,0,510,511)"
     //@ obligation C09 C09.recursive_unmap_4kib.shape_p4_absent.only_dictated_slots_change bounded="pool of 7 tables (4 path + 3 allocatable); tree-shaped sparse pre-state (target path, one neighbour word per path table, garbage in allocatable frames); recursive index 300; page-table indices (256,0,510,511)"
     //@ obligation C09 C09.recursive_unmap_4kib.shape_p4_absent.no_frames_requested_or_zeroed bounded="pool of 7 tables (4 path + 3 allocatable); tree-shaped sparse pre-state (target path, one neighbour word per path table, garbage in allocatable frames); recursive index 300; page-table indices (256,0,510,511)"
@@ -710,7 +756,9 @@ mod verif_c01_recursive_step {
     //@ obligation C01 C01.recursive_unmap_4kib.shape_p3_absent.reports_mapped_frame bounded="pool of 7 tables (4 path + 3 allocatable); tree-shaped sparse pre-state (target path, one neighbour word per path table, garbage in allocatable frames); recursive index 300; page-table indices (255,511,0,256)"
     //@ obligation C11 C11.recursive_unmap_4kib.shape_p3_absent.token_names_page bounded="pool of 7 tables (4 path + 3 allocatable); tree-shaped sparse pre-state (target path, one neighbour word per path table, garbage in allocatable frames); recursive index 300; page-table indices (255,511,0,256)"
     //@ obligation C01 C01.recursive_unmap_4kib.shape_p3_absent.target_after bounded="pool of 7 tables (4 path + 3 allocatable); tree-shaped sparse pre-state (target path, one neighbour word per path table, garbage in allocatable frames); recursive index 300; page-table indices (255,511,0,256)"
+    //@ obligation C11 C11.recursive_unmap_4kib.shape_p3_absent.target_after bounded="pool of 7 tables (4 path + 3 allocatable); tree-shaped sparse pre-state (target path, one neighbour word per path table, garbage in allocatable frames); recursive index 300; page-table indices (255,511,0,256)"
     //@ obligation C01 C01.recursive_unmap_4kib.shape_p3_absent.other_addresses_unchanged bounded="pool of 7 tables (4 path + 3 allocatable); tree-shaped sparse pre-state (target path, one neighbour word per path table, garbage in allocatable frames); recursive index 300; page-table indices (255,511,0,256)"
+    //@ obligation C11 C11.recursive_unmap_4kib.shape_p3_absent.other_addresses_unchanged bounded="pool of 7 tables (4 path + 3 allocatable); tree-shaped sparse pre-state (target path, one neighbour word per path table, garbage in allocatable frames); recursive index 300; page-table indices (255,511,0,256)"
     //@ obligation C02 C02.recursive_unmap_4kib.shape_p3_absent.error_leaves_every_mapping bounded="pool of 7 tables (4 path + 3 allocatable); tree-shaped sparse pre-state (target path, one neighbour word per path table, garbage in allocatable frames); recursive index 300; page-table indices (255,511,0,256)"
     //@ obligation C09 C09.recursive_unmap_4kib.shape_p3_absent.only_dictated_slots_change bounded="pool of 7 tables (4 path + 3 allocatable); tree-shaped sparse pre-state (target path, one neighbour word per path table, garbage in allocatable frames); recursive index 300; page-table indices (255,511,0,256)"
     //@ obligation C09 C09.recursive_unmap_4kib.shape_p3_absent.no_frames_requested_or_zeroed bounded="pool of 7 tables (4 path + 3 allocatable); tree-shaped sparse pre-state (target path, one neighbour word per path table, garbage in allocatable frames); recursive index 300; page-table indices (255,511,0,256)"
@@ -729,7 +777,9 @@ mod verif_c01_recursive_step {
     //@ obligation C01 C01.recursive_unmap_4kib.shape_p3_absent.reports_mapped_frame tier=thorough bounded="pool of 7 tables (4 path + 3 allocatable); tree-shaped sparse pre-state (target path, one neighbour word per path table, garbage in allocatable frames); recursive index 300; page-table indices (256,0,510,511)"
     //@ obligation C11 C11.recursive_unmap_4kib.shape_p3_absent.token_names_page tier=thorough bounded="pool of 7 tables (4 path + 3 allocatable); tree-shaped sparse pre-state (target path, one neighbour word per path table, garbage in allocatable frames); recursive index 300; page-table indices (256,0,510,511)"
     //@ obligation C01 C01.recursive_unmap_4kib.shape_p3_absent.target_after tier=thorough bounded="pool of 7 tables (4 path + 3 allocatable); tree-shaped sparse pre-state (target path, one neighbour word per path table, garbage in allocatable frames); recursive index 300; page-table indices (256,0,510,511)"
+    //@ obligation C11 C11.recursive_unmap_4kib.shape_p3_absent.target_after tier=thorough bounded="pool of 7 tables (4 path + 3 allocatable); tree-shaped sparse pre-state (target path, one neighbour word per path table, garbage in allocatable frames); recursive index 300; page-table indices (256,0,510,511)"
     //@ obligation C01 C01.recursive_unmap_4kib.shape_p3_absent.other_addresses_unchanged tier=thorough bounded="pool of 7 tables (4 path + 3 allocatable); tree-shaped sparse pre-state (target path, one neighbour word per path table, garbage in allocatable frames); recursive index 300; page-table indices (256,0,510,511)"
+    //@ obligation C11 C11.recursive_unmap_4kib.shape_p3_absent.other_addresses_unchanged tier=thorough bounded="pool of 7 tables (4 path + 3 allocatable); tree-shaped sparse pre-state (target path, one neighbour word per path table, garbage in allocatable frames); recursive index 300; page-table indices (256,0,510,511)"
     //@ obligation C02 C02.recursive_unmap_4kib.shape_p3_absent.error_leaves_every_mapping tier=thorough bounded="pool of 7 tables (4 path + 3 allocatable); tree-shaped sparse pre-state (target path, one neighbour word per path table, garbage in allocatable frames); recursive index 300; page-table indices (256,0,510,511)"
     //@ obligation C09 C09.recursive_unmap_4kib.shape_p3_absent.only_dictated_slots_change tier=thorough bounded="pool of 7 tables (4 path + 3 allocatable); tree-shaped sparse pre-state (target path, one neighbour word per path table, garbage in allocatable frames); recursive index 300; page-table indices (256,0,510,511)"
     //@ obligation C09 C09.recursive_unmap_4kib.shape_p3_absent.no_frames_requested_or_zeroed tier=thorough bounded="pool of 7 tables (4 path + 3 allocatable); tree-shaped sparse pre-state (target path, one neighbour word per path table, garbage in allocatable frames); recursive index 300; page-table indices (256,0,510,511)"
@@ -748,7 +798,9 @@ mod verif_c01_recursive_step {
     //@ obligation C01 C01.recursive_unmap_4kib.shape_p3_huge.reports_mapped_frame bounded="pool of 7 tables (4 path + 3 allocatable); tree-shaped sparse pre-state (target path, one neighbour word per path table, garbage in allocatable frames); recursive index 300; page-table indices (255,511,0,256)"
     //@ obligation C11 C11.recursive_unmap_4kib.shape_p3_huge.token_names_page bounded="pool of 7 tables (4 path + 3 allocatable); tree-shaped sparse pre-state (target path, one neighbour word per path table, garbage in allocatable frames); recursive index 300; page-table indices (255,511,0,256)"
     //@ obligation C01 C01.recursive_unmap_4kib.shape_p3_huge.target_after bounded="pool of 7 tables (4 path + 3 allocatable); tree-shaped sparse pre-state (target path, one neighbour word per path table, garbage in allocatable frames); recursive index 300; page-table indices (255,511,0,256)"
+    //@ obligation C11 C11.recursive_unmap_4kib.shape_p3_huge.target_after bounded="pool of 7 tables (4 path + 3 allocatable); tree-shaped sparse pre-state (target path, one neighbour word per path table, garbage in allocatable frames); recursive index 300; page-table indices (255,511,0,256)"
     //@ obligation C01 C01.recursive_unmap_4kib.shape_p3_huge.other_addresses_unchanged bounded="pool of 7 tables (4 path + 3 allocatable); tree-shaped sparse pre-state (target path, one neighbour word per path table, garbage in allocatable frames); recursive index 300; page-table indices (255,511,0,256)"
+    //@ obligation C11 C11.recursive_unmap_4kib.shape_p3_huge.other_addresses_unchanged bounded="pool of 7 tables (4 path + 3 allocatable); tree-shaped sparse pre-state (target path, one neighbour word per path table, garbage in allocatable frames); recursive index 300; page-table indices (255,511,0,256)"
     //@ obligation C02 C02.recursive_unmap_4kib.shape_p3_huge.error_leaves_every_mapping bounded="pool of 7 tables (4 path + 3 allocatable); tree-shaped sparse pre-state (target path, one neighbour word per path table, garbage in allocatable frames); recursive index 300; page-table indices (255,511,0,256)"
     //@ obligation C09 C09.recursive_unmap_4kib.shape_p3_huge.only_dictated_slots_change bounded="pool of 7 tables (4 path + 3 allocatable); tree-shaped sparse pre-state (target path, one neighbour word per path table, garbage in allocatable frames); recursive index 300; page-table indices (255,511,0,256)"
     //@ obligation C09 C09.recursive_unmap_4kib.shape_p3_huge.no_frames_requested_or_zeroed bounded="pool of 7 tables (4 path + 3 allocatable); tree-shaped sparse pre-state (target path, one neighbour word per path table, garbage in allocatable frames); recursive index 300; page-table indices (255,511,0,256)"
@@ -767,7 +819,9 @@ mod verif_c01_recursive_step {
     //@ obligation C01 C01.recursive_unmap_4kib.shape_p3_huge.reports_mapped_frame tier=thorough bounded="pool of 7 tables (4 path + 3 allocatable); tree-shaped sparse pre-state (target path, one neighbour word per path table, garbage in allocatable frames); recursive index 300; page-table indices (256,0,510,511)"
     //@ obligation C11 C11.recursive_unmap_4kib.shape_p3_huge.token_names_page tier=thorough bounded="pool of 7 tables (4 path + 3 allocatable); tree-shaped sparse pre-state (target path, one neighbour word per path table, garbage in allocatable frames); recursive index 300; page-table indices (256,0,510,511)"
     //@ obligation C01 C01.recursive_unmap_4kib.shape_p3_huge.target_after tier=thorough bounded="pool of 7 tables (4 path + 3 allocatable); tree-shaped sparse pre-state (target path, one neighbour word per path table, garbage in allocatable frames); recursive index 300; page-table indices (256,0,510,511)"
+    //@ obligation C11 C11.recursive_unmap_4kib.shape_p3_huge.target_after tier=thorough bounded="pool of 7 tables (4 path + 3 allocatable); tree-shaped sparse pre-state (target path, one neighbour word per path table, garbage in allocatable frames); recursive index 300; page-table indices (256,0,510,511)"
     //@ obligation C01 C01.recursive_unmap_4kib.shape_p3_huge.other_addresses_unchanged tier=thorough bounded="pool of 7 tables (4 path + 3 allocatable); tree-shaped sparse pre-state (target path, one neighbour word per path table, garbage in allocatable frames); recursive index 300; page-table indices (256,0,510,511)"
+    //@ obligation C11 C11.recursive_unmap_4kib.shape_p3_huge.other_addresses_unchanged tier=thorough bounded="pool of 7 tables (4 path + 3 allocatable); tree-shaped sparse pre-state (target path, one neighbour word per path table, garbage in allocatable frames); recursive index 300; page-table indices (256,0,510,511)"
     //@ obligation C02 C02.recursive_unmap_4kib.shape_p3_huge.error_leaves_every_mapping tier=thorough bounded="pool of 7 tables (4 path + 3 allocatable); tree-shaped sparse pre-state (target path, one neighbour word per path table, garbage in allocatable frames); recursive index 300; page-table indices (256,0,510,511)"
     //@ obligation C09 C09.recursive_unmap_4kib.shape_p3_huge.only_dictated_slots_change tier=thorough bounded="pool of 7 tables (4 path + 3 allocatable); tree-shaped sparse pre-state (target path, one neighbour word per path table, garbage in allocatable frames); recursive index 300; page-table indices (256,0,510,511)"
     //@ obligation C09 C09.recursive_unmap_4kib.shape_p3_huge.no_frames_requested_or_zeroed tier=thorough bounded="pool of 7 tables (4 path + 3 allocatable); tree-shaped sparse pre-state (target path, one neighbour word per path table, garbage in allocatable frames); recursive index 300; page-table indices (256,0,510,511)"
@@ -786,7 +840,9 @@ mod verif_c01_recursive_step {
     //@ obligation C01 C01.recursive_unmap_4kib.shape_p2_absent.reports_mapped_frame tier=thorough bounded="pool of 7 tables (4 path + 3 allocatable); tree-shaped sparse pre-state (target path, one neighbour word per path table, garbage in allocatable frames); recursive index 300; page-table indices (255,511,0,256)"
     //@ obligation C11 C11.recursive_unmap_4kib.shape_p2_absent.token_names_page tier=thorough bounded="pool of 7 tables (4 path + 3 allocatable); tree-shaped sparse pre-state (target path, one neighbour word per path table, garbage in allocatable frames); recursive index 300; page-table indices (255,511,0,256)"
     //@ obligation C01 C01.recursive_unmap_4kib.shape_p2_absent.target_after tier=thorough bounded="pool of 7 tables (4 path + 3 allocatable); tree-shaped sparse pre-state (target path, one neighbour word per path table, garbage in allocatable frames); recursive index 300; page-table indices (255,511,0,256)"
+    //@ obligation C11 C11.recursive_unmap_4kib.shape_p2_absent.target_after tier=thorough bounded="pool of 7 tables (4 path + 3 allocatable); tree-shaped sparse pre-state (target path, one neighbour word per path table, garbage in allocatable frames); recursive index 300; page-table indices (255,511,0,256)"
     //@ obligation C01 C01.recursive_unmap_4kib.shape_p2_absent.other_addresses_unchanged tier=thorough bounded="pool of 7 tables (4 path + 3 allocatable); tree-shaped sparse pre-state (target path, one neighbour word per path table, garbage in allocatable frames); recursive index 300; page-table indices (255,511,0,256)"
+    //@ obligation C11 C11.recursive_unmap_4kib.shape_p2_absent.other_addresses_unchanged tier=thorough bounded="pool of 7 tables (4 path + 3 allocatable); tree-shaped sparse pre-state (target path, one neighbour word per path table, garbage in allocatable frames); recursive index 300; page-table indices (255,511,0,256)"
     //@ obligation C02 C02.recursive_unmap_4kib.shape_p2_absent.error_leaves_every_mapping tier=thorough bounded="pool of 7 tables (4 path + 3 allocatable); tree-shaped sparse pre-state (target path, one neighbour word per path table, garbage in allocatable frames); recursive index 300; page-table indices (255,511,0,256)"
     //@ obligation C09 C09.recursive_unmap_4kib.shape_p2_absent.only_dictated_slots_change tier=thorough bounded="pool of 7 tables (4 path + 3 allocatable); tree-shaped sparse pre-state (target path, one neighbour word per path table, garbage in allocatable frames); recursive index 300; page-table indices (255,511,0,256)"
     //@ obligation C09 C09.recursive_unmap_4kib.shape_p2_absent.no_frames_requested_or_zeroed tier=thorough bounded="pool of 7 tables (4 path + 3 allocatable); tree-shaped sparse pre-state (target path, one neighbour word per path table, garbage in allocatable frames); recursive index 300; page-table indices (255,511,0,256)"
@@ -805,7 +861,9 @@ mod verif_c01_recursive_step {
     //@ obligation C01 C01.recursive_unmap_4kib.shape_p2_absent.reports_mapped_frame bounded="pool of 7 tables (4 path + 3 allocatable); tree-shaped sparse pre-state (target path, one neighbour word per path table, garbage in allocatable frames); recursive index 300; page-table indices (256,0,510,511)"
     //@ obligation C11 C11.recursive_unmap_4kib.shape_p2_absent.token_names_page bounded="pool of 7 tables (4 path + 3 allocatable); tree-shaped sparse pre-state (target path, one neighbour word per path table, garbage in allocatable frames); recursive index 300; page-table indices (256,0,510,511)"
     //@ obligation C01 C01.recursive_unmap_4kib.shape_p2_absent.target_after bounded="pool of 7 tables (4 path + 3 allocatable); tree-shaped sparse pre-state (target path, one neighbour word per path table, garbage in allocatable frames); recursive index 300; page-table indices (256,0,510,511)"
+    //@ obligation C11 C11.recursive_unmap_4kib.shape_p2_absent.target_after bounded="pool of 7 tables (4 path + 3 allocatable); tree-shaped sparse pre-state (target path, one neighbour word per path table, garbage in allocatable frames); recursive index 300; page-table indices (256,0,510,511)"
     //@ obligation C01 C01.recursive_unmap_4kib.shape_p2_absent.other_addresses_unchanged bounded="pool of 7 tables (4 path + 3 allocatable); tree-shaped sparse pre-state (target path, one neighbour word per path table, garbage in allocatable frames); recursive index 300; page-table indices (256,0,510,511)"
+    //@ obligation C11 C11.recursive_unmap_4kib.shape_p2_absent.other_addresses_unchanged bounded="pool of 7 tables (4 path + 3 allocatable); tree-shaped sparse pre-state (target path, one neighbour word per path table, garbage in allocatable frames); recursive index 300; page-table indices (256,0,510,511)"
     //@ obligation C02 C02.recursive_unmap_4kib.shape_p2_absent.error_leaves_every_mapping bounded="pool of 7 tables (4 path + 3 allocatable); tree-shaped sparse pre-state (target path, one neighbour word per path table, garbage in allocatable frames); recursive index 300; page-table indices (256,0,510,511)"
     //@ obligation C09 C09.recursive_unmap_4kib.shape_p2_absent.only_dictated_slots_change bounded="pool of 7 tables (4 path + 3 allocatable); tree-shaped sparse pre-state (target path, one neighbour word per path table, garbage in allocatable frames); recursive index 300; page-table indices (256,0,510,511)"
     //@ obligation C09 C09.recursive_unmap_4kib.shape_p2_absent.no_frames_requested_or_zeroed bounded="pool of 7 tables (4 path + 3 allocatable); tree-shaped sparse pre-state (target path, one neighbour word per path table, garbage in allocatable frames); recursive index 300; page-table indices (256,0,510,511)"
@@ -824,7 +882,9 @@ mod verif_c01_recursive_step {
     //@ obligation C01 C01.recursive_unmap_4kib.shape_p2_huge.reports_mapped_frame bounded="pool of 7 tables (4 path + 3 allocatable); tree-shaped sparse pre-state (target path, one neighbour word per path table, garbage in allocatable frames); recursive index 300; page-table indices (255,511,0,256)"
     //@ obligation C11 C11.recursive_unmap_4kib.shape_p2_huge.token_names_page bounded="pool of 7 tables (4 path + 3 allocatable); tree-shaped sparse pre-state (target path, one neighbour word per path table, garbage in allocatable frames); recursive index 300; page-table indices (255,511,0,256)"
     //@ obligation C01 C01.recursive_unmap_4kib.shape_p2_huge.target_after bounded="pool of 7 tables (4 path + 3 allocatable); tree-shaped sparse pre-state (target path, one neighbour word per path table, garbage in allocatable frames); recursive index 300; page-table indices (255,511,0,256)"
+    //@ obligation C11 C11.recursive_unmap_4kib.shape_p2_huge.target_after bounded="pool of 7 tables (4 path + 3 allocatable); tree-shaped sparse pre-state (target path, one neighbour word per path table, garbage in allocatable frames); recursive index 300; page-table indices (255,511,0,256)"
     //@ obligation C01 C01.recursive_unmap_4kib.shape_p2_huge.other_addresses_unchanged bounded="pool of 7 tables (4 path + 3 allocatable); tree-shaped sparse pre-state (target path, one neighbour word per path table, garbage in allocatable frames); recursive index 300; page-table indices (255,511,0,256)"
+    //@ obligation C11 C11.recursive_unmap_4kib.shape_p2_huge.other_addresses_unchanged bounded="pool of 7 tables (4 path + 3 allocatable); tree-shaped sparse pre-state (target path, one neighbour word per path table, garbage in allocatable frames); recursive index 300; page-table indices (255,511,0,256)"
     //@ obligation C02 C02.recursive_unmap_4kib.shape_p2_huge.error_leaves_every_mapping bounded="pool of 7 tables (4 path + 3 allocatable); tree-shaped sparse pre-state (target path, one neighbour word per path table, garbage in allocatable frames); recursive index 300; page-table indices (255,511,0,256)"
     //@ obligation C09 C09.recursive_unmap_4kib.shape_p2_huge.only_dictated_slots_change bounded="pool of 7 tables (4 path + 3 allocatable); tree-shaped sparse pre-state (target path, one neighbour word per path table, garbage in allocatable frames); recursive index 300; page-table indices (255,511,0,256)"
     //@ obligation C09 C09.recursive_unmap_4kib.shape_p2_huge.no_frames_requested_or_zeroed bounded="pool of 7 tables (4 path + 3 allocatable); tree-shaped sparse pre-state (target path, one neighbour word per path table, garbage in allocatable frames); recursive index 300; page-table indices (255,511,0,256)"
@@ -843,7 +903,9 @@ mod verif_c01_recursive_step {
     //@ obligation C01 C01.recursive_unmap_4kib.shape_p2_huge.reports_mapped_frame tier=thorough bounded="pool of 7 tables (4 path + 3 allocatable); tree-shaped sparse pre-state (target path, one neighbour word per path table, garbage in allocatable frames); recursive index 300; page-table indices (256,0,510,511)"
     //@ obligation C11 C11.recursive_unmap_4kib.shape_p2_huge.token_names_page tier=thorough bounded="pool of 7 tables (4 path + 3 allocatable); tree-shaped sparse pre-state (target path, one neighbour word per path table, garbage in allocatable frames); recursive index 300; page-table indices (256,0,510,511)"
     //@ obligation C01 C01.recursive_unmap_4kib.shape_p2_huge.target_after tier=thorough bounded="pool of 7 tables (4 path + 3 allocatable); tree-shaped sparse pre-state (target path, one neighbour word per path table, garbage in allocatable frames); recursive index 300; page-table indices (256,0,510,511)"
+    //@ obligation C11 C11.recursive_unmap_4kib.shape_p2_huge.target_after tier=thorough bounded="pool of 7 tables (4 path + 3 allocatable); tree-shaped sparse pre-state (target path, one neighbour word per path table, garbage in allocatable frames); recursive index 300; page-table indices (256,0,510,511)"
     //@ obligation C01 C01.recursive_unmap_4kib.shape_p2_huge.other_addresses_unchanged tier=thorough bounded="pool of 7 tables (4 path + 3 allocatable); tree-shaped sparse pre-state (target path, one neighbour word per path table, garbage in allocatable frames); recursive index 300; page-table indices (256,0,510,511)"
+    //@ obligation C11 C11.recursive_unmap_4kib.shape_p2_huge.other_addresses_unchanged tier=thorough bounded="pool of 7 tables (4 path + 3 allocatable); tree-shaped sparse pre-state (target path, one neighbour word per path table, garbage in allocatable frames); recursive index 300; page-table indices (256,0,510,511)"
     //@ obligation C02 C02.recursive_unmap_4kib.shape_p2_huge.error_leaves_every_mapping tier=thorough bounded="pool of 7 tables (4 path + 3 allocatable); tree-shaped sparse pre-state (target path, one neighbour word per path table, garbage in allocatable frames); recursive index 300; page-table indices (256,0,510,511)"
     //@ obligation C09 C09.recursive_unmap_4kib.shape_p2_huge.only_dictated_slots_change tier=thorough bounded="pool of 7 tables (4 path + 3 allocatable); tree-shaped sparse pre-state (target path, one neighbour word per path table, garbage in allocatable frames); recursive index 300; page-table indices (256,0,510,511)"
     //@ obligation C09 C09.recursive_unmap_4kib.shape_p2_huge.no_frames_requested_or_zeroed tier=thorough bounded="pool of 7 tables (4 path + 3 allocatable); tree-shaped sparse pre-state (target path, one neighbour word per path table, garbage in allocatable frames); recursive index 300; page-table indices (256,0,510,511)"
@@ -862,7 +924,9 @@ mod verif_c01_recursive_step {
     //@ obligation C01 C01.recursive_unmap_4kib.shape_p1_absent.reports_mapped_frame tier=thorough bounded="pool of 7 tables (4 path + 3 allocatable); tree-shaped sparse pre-state (target path, one neighbour word per path table, garbage in allocatable frames); recursive index 300; page-table indices (255,511,0,256)"
     //@ obligation C11 C11.recursive_unmap_4kib.shape_p1_absent.token_names_page tier=thorough bounded="pool of 7 tables (4 path + 3 allocatable); tree-shaped sparse pre-state (target path, one neighbour word per path table, garbage in allocatable frames); recursive index 300; page-table indices (255,511,0,256)"
     //@ obligation C01 C01.recursive_unmap_4kib.shape_p1_absent.target_after tier=thorough bounded="pool of 7 tables (4 path + 3 allocatable); tree-shaped sparse pre-state (target path, one neighbour word per path table, garbage in allocatable frames); recursive index 300; page-table indices (255,511,0,256)"
+    //@ obligation C11 C11.recursive_unmap_4kib.shape_p1_absent.target_after tier=thorough bounded="pool of 7 tables (4 path + 3 allocatable); tree-shaped sparse pre-state (target path, one neighbour word per path table, garbage in allocatable frames); recursive index 300; page-table indices (255,511,0,256)"
     //@ obligation C01 C01.recursive_unmap_4kib.shape_p1_absent.other_addresses_unchanged tier=thorough bounded="pool of 7 tables (4 path + 3 allocatable); tree-shaped sparse pre-state (target path, one neighbour word per path table, garbage in allocatable frames); recursive index 300; page-table indices (255,511,0,256)"
+    //@ obligation C11 C11.recursive_unmap_4kib.shape_p1_absent.other_addresses_unchanged tier=thorough bounded="pool of 7 tables (4 path + 3 allocatable); tree-shaped sparse pre-state (target path, one neighbour word per path table, garbage in allocatable frames); recursive index 300; page-table indices (255,511,0,256)"
     //@ obligation C02 C02.recursive_unmap_4kib.shape_p1_absent.error_leaves_every_mapping tier=thorough bounded="pool of 7 tables (4 path + 3 allocatable); tree-shaped sparse pre-state (target path, one neighbour word per path table, garbage in allocatable frames); recursive index 300; page-table indices (255,511,0,256)"
     //@ obligation C09 C09.recursive_unmap_4kib.shape_p1_absent.only_dictated_slots_change tier=thorough bounded="pool of 7 tables (4 path + 3 allocatable); tree-shaped sparse pre-state (target path, one neighbour word per path table, garbage in allocatable frames); recursive index 300; page-table indices (255,511,0,256)"
     //@ obligation C09 C09.recursive_unmap_4kib.shape_p1_absent.no_frames_requested_or_zeroed tier=thorough bounded="pool of 7 tables (4 path + 3 allocatable); tree-shaped sparse pre-state (target path, one neighbour word per path table, garbage in allocatable frames); recursive index 300; page-table indices (255,511,0,256)"
@@ -881,7 +945,9 @@ mod verif_c01_recursive_step {
     //@ obligation C01 C01.recursive_unmap_4kib.shape_p1_absent.reports_mapped_frame tier=thorough bounded="pool of 7 tables (4 path + 3 allocatable); tree-shaped sparse pre-state (target path, one neighbour word per path table, garbage in allocatable frames); recursive index 300; page-table indices (256,0,510,511)"
     //@ obligation C11 C11.recursive_unmap_4kib.shape_p1_absent.token_names_page tier=thorough bounded="pool of 7 tables (4 path + 3 allocatable); tree-shaped sparse pre-state (target path, one neighbour word per path table, garbage in allocatable frames); recursive index 300; page-table indices (256,0,510,511)"
     //@ obligation C01 C01.recursive_unmap_4kib.shape_p1_absent.target_after tier=thorough bounded="pool of 7 tables (4 path + 3 allocatable); tree-shaped sparse pre-state (target path, one neighbour word per path table, garbage in allocatable frames); recursive index 300; page-table indices (256,0,510,511)"
+    //@ obligation C11 C11.recursive_unmap_4kib.shape_p1_absent.target_after tier=thorough bounded="pool of 7 tables (4 path + 3 allocatable); tree-shaped sparse pre-state (target path, one neighbour word per path table, garbage in allocatable frames); recursive index 300; page-table indices (256,0,510,511)"
     //@ obligation C01 C01.recursive_unmap_4kib.shape_p1_absent.other_addresses_unchanged tier=thorough bounded="pool of 7 tables (4 path + 3 allocatable); tree-shaped sparse pre-state (target path, one neighbour word per path table, garbage in allocatable frames); recursive index 300; page-table indices (256,0,510,511)"
+    //@ obligation C11 C11.recursive_unmap_4kib.shape_p1_absent.other_addresses_unchanged tier=thorough bounded="pool of 7 tables (4 path + 3 allocatable); tree-shaped sparse pre-state (target path, one neighbour word per path table, garbage in allocatable frames); recursive index 300; page-table indices (256,0,510,511)"
     //@ obligation C02 C02.recursive_unmap_4kib.shape_p1_absent.error_leaves_every_mapping tier=thorough bounded="pool of 7 tables (4 path + 3 allocatable); tree-shaped sparse pre-state (target path, one neighbour word per path table, garbage in allocatable frames); recursive index 300; page-table indices (256,0,510,511)"
     //@ obligation C09 C09.recursive_unmap_4kib.shape_p1_absent.only_dictated_slots_change tier=thorough bounded="pool of 7 tables (4 path + 3 allocatable); tree-shaped sparse pre-state (target path, one neighbour word per path table, garbage in allocatable frames); recursive index 300; page-table indices (256,0,510,511)"
     //@ obligation C09 C09.recursive_unmap_4kib.shape_p1_absent.no_frames_requested_or_zeroed tier=thorough bounded="pool of 7 tables (4 path + 3 allocatable); tree-shaped sparse pre-state (target path, one neighbour word per path table, garbage in allocatable frames); recursive index 300; page-table indices (256,0,510,511)"
@@ -900,7 +966,9 @@ mod verif_c01_recursive_step {
     //@ obligation C01 C01.recursive_unmap_4kib.shape_p1_leaf.reports_mapped_frame tier=thorough bounded="pool of 7 tables (4 path + 3 allocatable); tree-shaped sparse pre-state (target path, one neighbour word per path table, garbage in allocatable frames); recursive index 300; page-table indices (255,511,0,256)"
     //@ obligation C11 C11.recursive_unmap_4kib.shape_p1_leaf.token_names_page tier=thorough bounded="pool of 7 tables (4 path + 3 allocatable); tree-shaped sparse pre-state (target path, one neighbour word per path table, garbage in allocatable frames); recursive index 300; page-table indices (255,511,0,256)"
     //@ obligation C01 C01.recursive_unmap_4kib.shape_p1_leaf.target_after tier=thorough bounded="pool of 7 tables (4 path + 3 allocatable); tree-shaped sparse pre-state (target path, one neighbour word per path table, garbage in allocatable frames); recursive index 300; page-table indices (255,511,0,256)"
+    //@ obligation C11 C11.recursive_unmap_4kib.shape_p1_leaf.target_after tier=thorough bounded="pool of 7 tables (4 path + 3 allocatable); tree-shaped sparse pre-state (target path, one neighbour word per path table, garbage in allocatable frames); recursive index 300; page-table indices (255,511,0,256)"
     //@ obligation C01 C01.recursive_unmap_4kib.shape_p1_leaf.other_addresses_unchanged tier=thorough bounded="pool of 7 tables (4 path + 3 allocatable); tree-shaped sparse pre-state (target path, one neighbour word per path table, garbage in allocatable frames); recursive index 300; page-table indices (255,511,0,256)"
+    //@ obligation C11 C11.recursive_unmap_4kib.shape_p1_leaf.other_addresses_unchanged tier=thorough bounded="pool of 7 tables (4 path + 3 allocatable); tree-shaped sparse pre-state (target path, one neighbour word per path table, garbage in allocatable frames); recursive index 300; page-table indices (255,511,0,256)"
     //@ obligation C02 C02.recursive_unmap_4kib.shape_p1_leaf.error_leaves_every_mapping tier=thorough bounded="pool of 7 tables (4 path + 3 allocatable); tree-shaped sparse pre-state (target path, one neighbour word per path table, garbage in allocatable frames); recursive index 300; page-table indices (255,511,0,256)"
     //@ obligation C09 C09.recursive_unmap_4kib.shape_p1_leaf.only_dictated_slots_change tier=thorough bounded="pool of 7 tables (4 path + 3 allocatable); tree-shaped sparse pre-state (target path, one neighbour word per path table, garbage in allocatable frames); recursive index 300; page-table indices (255,511,0,256)"
     //@ obligation C09 C09.recursive_unmap_4kib.shape_p1_leaf.no_frames_requested_or_zeroed tier=thorough bounded="pool of 7 tables (4 path + 3 allocatable); tree-shaped sparse pre-state (target path, one neighbour word per path table, garbage in allocatable frames); recursive index 300; page-table indices (255,511,0,256)"
@@ -919,7 +987,9 @@ mod verif_c01_recursive_step {
     //@ obligation C01 C01.recursive_unmap_4kib.shape_p1_leaf.reports_mapped_frame bounded="pool of 7 tables (4 path + 3 allocatable); tree-shaped sparse pre-state (target path, one neighbour word per path table, garbage in allocatable frames); recursive index 300; page-table indices (256,0,510,511)"
     //@ obligation C11 C11.recursive_unmap_4kib.shape_p1_leaf.token_names_page bounded="pool of 7 tables (4 path + 3 allocatable); tree-shaped sparse pre-state (target path, one neighbour word per path table, garbage in allocatable frames); recursive index 300; page-table indices (256,0,510,511)"
     //@ obligation C01 C01.recursive_unmap_4kib.shape_p1_leaf.target_after bounded="pool of 7 tables (4 path + 3 allocatable); tree-shaped sparse pre-state (target path, one neighbour word per path table, garbage in allocatable frames); recursive index 300; page-table indices (256,0,510,511)"
+    //@ obligation C11 C11.recursive_unmap_4kib.shape_p1_leaf.target_after bounded="pool of 7 tables (4 path + 3 allocatable); tree-shaped sparse pre-state (target path, one neighbour word per path table, garbage in allocatable frames); recursive index 300; page-table indices (256,0,510,511)"
     //@ obligation C01 C01.recursive_unmap_4kib.shape_p1_leaf.other_addresses_unchanged bounded="pool of 7 tables (4 path + 3 allocatable); tree-shaped sparse pre-state (target path, one neighbour word per path table, garbage in allocatable frames); recursive index 300; page-table indices (256,0,510,511)"
+    //@ obligation C11 C11.recursive_unmap_4kib.shape_p1_leaf.other_addresses_unchanged bounded="pool of 7 tables (4 path + 3 allocatable); tree-shaped sparse pre-state (target path, one neighbour word per path table, garbage in allocatable frames); recursive index 300; page-table indices (256,0,510,511)"
     //@ obligation C02 C02.recursive_unmap_4kib.shape_p1_leaf.error_leaves_every_mapping bounded="pool of 7 tables (4 path + 3 allocatable); tree-shaped sparse pre-state (target path, one neighbour word per path table, garbage in allocatable frames); recursive index 300; page-table indices (256,0,510,511)"
     //@ obligation C09 C09.recursive_unmap_4kib.shape_p1_leaf.only_dictated_slots_change bounded="pool of 7 tables (4 path + 3 allocatable); tree-shaped sparse pre-state (target path, one neighbour word per path table, garbage in allocatable frames); recursive index 300; page-table indices (256,0,510,511)"
     //@ obligation C09 C09.recursive_unmap_4kib.shape_p1_leaf.no_frames_requested_or_zeroed bounded="pool of 7 tables (4 path + 3 allocatable); tree-shaped sparse pre-state (target path, one neighbour word per path table, garbage in allocatable frames); recursive index 300; page-table indices (256,0,510,511)"
@@ -937,7 +1007,9 @@ mod verif_c01_recursive_step {
     //@ obligation C02 C02.recursive_update_flags_4kib.shape_p4_absent.documented_outcome bounded="pool of 7 tables (4 path + 3 allocatable); tree-shaped sparse pre-state (target path, one neighbour word per path table, garbage in allocatable frames); recursive index 300; page-table indices (255,511,0,256)"
     //@ obligation C11 C11.recursive_update_flags_4kib.shape_p4_absent.token_names_page bounded="pool of 7 tables (4 path + 3 allocatable); tree-shaped sparse pre-state (target path, one neighbour word per path table, garbage in allocatable frames); recursive index 300; page-table indices (255,511,0,256)"
     //@ obligation C01 C01.recursive_update_flags_4kib.shape_p4_absent.target_after bounded="pool of 7 tables (4 path + 3 allocatable); tree-shaped sparse pre-state (target path, one neighbour word per path table, garbage in allocatable frames); recursive index 300; page-table indices (255,511,0,256)"
+    //@ obligation C11 C11.recursive_update_flags_4kib.shape_p4_absent.target_after bounded="pool of 7 tables (4 path + 3 allocatable); tree-shaped sparse pre-state (target path, one neighbour word per path table, garbage in allocatable frames); recursive index 300; page-table indices (255,511,0,256)"
     //@ obligation C01 C01.recursive_update_flags_4kib.shape_p4_absent.other_addresses_unchanged bounded="pool of 7 tables (4 path + 3 allocatable); tree-shaped sparse pre-state (target path, one neighbour word per path table, garbage in allocatable frames); recursive index 300; page-table indices (255,511,0,256)"
+    //@ obligation C11 C11.recursive_update_flags_4kib.shape_p4_absent.other_addresses_unchanged bounded="pool of 7 tables (4 path + 3 allocatable); tree-shaped sparse pre-state (target path, one neighbour word per path table, garbage in allocatable frames); recursive index 300; page-table indices (255,511,0,256)"
     //@ obligation C02 C02.recursive_update_flags_4kib.shape_p4_absent.error_leaves_every_mapping bounded="pool of 7 tables (4 path + 3 allocatable); tree-shaped sparse pre-state (target path, one neighbour word per path table, garbage in allocatable frames); recursive index 300; page-table indices (255,511,0,256)"
     //@ obligation C09 C09.recursive_update_flags_4kib.shape_p4_absent.only_dictated_slots_change bounded="pool of 7 tables (4 path + 3 allocatable); tree-shaped sparse pre-state (target path, one neighbour word per path table, garbage in allocatable frames); recursive index 300; page-table indices (255,511,0,256)"
     //@ obligation C09 C09.recursive_update_flags_4kib.shape_p4_absent.no_frames_requested_or_zeroed bounded="pool of 7 tables (4 path + 3 allocatable); tree-shaped sparse pre-state (target path, one neighbour word per path table, garbage in allocatable frames); recursive index 300; page-table indices (255,511,0,256)"
@@ -955,7 +1027,9 @@ mod verif_c01_recursive_step {
     //@ obligation C02 C02.recursive_update_flags_4kib.shape_p4_absent.documented_outcome tier=thorough bounded="pool of 7 tables (4 path + 3 allocatable); tree-shaped sparse pre-state (target path, one neighbour word per path table, garbage in allocatable frames); recursive index 300; page-table indices (256,0,510,511)"
     //@ obligation C11 C11.recursive_update_flags_4kib.shape_p4_absent.token_names_page tier=thorough bounded="pool of 7 tables (4 path + 3 allocatable); tree-shaped sparse pre-state (target path, one neighbour word per path table, garbage in allocatable frames); recursive index 300; page-table indices (256,0,510,511)"
     //@ obligation C01 C01.recursive_update_flags_4kib.shape_p4_absent.target_after tier=thorough bounded="pool of 7 tables (4 path + 3 allocatable); tree-shaped sparse pre-state (target path, one neighbour word per path table, garbage in allocatable frames); recursive index 300; page-table indices (256,0,510,511)"
+    //@ obligation C11 C11.recursive_update_flags_4kib.shape_p4_absent.target_after tier=thorough bounded="pool of 7 tables (4 path + 3 allocatable); tree-shaped sparse pre-state (target path, one neighbour word per path table, garbage in allocatable frames); recursive index 300; page-table indices (256,0,510,511)"
     //@ obligation C01 C01.recursive_update_flags_4kib.shape_p4_absent.other_addresses_unchanged tier=thorough bounded="pool of 7 tables (4 path + 3 allocatable); tree-shaped sparse pre-state (target path, one neighbour word per path table, garbage in allocatable frames); recursive index 300; page-table indices (256,0,510,511)"
+    //@ obligation C11 C11.recursive_update_flags_4kib.shape_p4_absent.other_addresses_unchanged tier=thorough bounded="pool of 7 tables (4 path + 3 allocatable); tree-shaped sparse pre-state (target path, one neighbour word per path table, garbage in allocatable frames); recursive index 300; page-table indices (256,0,510,511)"
     //@ obligation C02 C02.recursive_update_flags_4kib.shape_p4_absent.error_leaves_every_mapping tier=thorough bounded="pool of 7 tables (4 path + 3 allocatable); tree-shaped sparse pre-state (target path, one neighbour word per path table, garbage in allocatable frames); recursive index 300; page-table indices (256,0,510,511)"
     //@ obligation C09 C09.recursive_update_flags_4kib.shape_p4_absent.only_dictated_slots_change tier=thorough bounded="pool of 7 tables (4 path + 3 allocatable); tree-shaped sparse pre-state (target path, one neighbour word per path table, garbage in allocatable frames); recursive index 300; page-table indices (256,0,510,511)"
     //@ obligation C09 C09.recursive_update_flags_4kib.shape_p4_absent.no_frames_requested_or_zeroed tier=thorough bounded="pool of 7 tables (4 path + 3 allocatable); tree-shaped sparse pre-state (target path, one neighbour word per path table, garbage in allocatable frames); recursive index 300; page-table indices (256,0,510,511)"
@@ -973,7 +1047,9 @@ mod verif_c01_recursive_step {
     //@ obligation C02 C02.recursive_update_flags_4kib.shape_p3_absent.documented_outcome tier=thorough bounded="pool of 7 tables (4 path + 3 allocatable); tree-shaped sparse pre-state (target path, one neighbour word per path table, garbage in allocatable frames); recursive index 300; page-table indices (255,511,0,256)"
     //@ obligation C11 C11.recursive_update_flags_4kib.shape_p3_absent.token_names_page tier=thorough bounded="pool of 7 tables (4 path + 3 allocatable); tree-shaped sparse pre-state (target path, one neighbour word per path table, garbage in allocatable frames); recursive index 300; page-table indices (255,511,0,256)"
     //@ obligation C01 C01.recursive_update_flags_4kib.shape_p3_absent.target_after tier=thorough bounded="pool of 7 tables (4 path + 3 allocatable); tree-shaped sparse pre-state (target path, one neighbour word per path table, garbage in allocatable frames); recursive index 300; page-table indices (255,511,0,256)"
+    //@ obligation C11 C11.recursive_update_flags_4kib.shape_p3_absent.target_after tier=thorough bounded="pool of 7 tables (4 path + 3 allocatable); tree-shaped sparse pre-state (target path, one neighbour word per path table, garbage in allocatable frames); recursive index 300; page-table indices (255,511,0,256)"
     //@ obligation C01 C01.recursive_update_flags_4kib.shape_p3_absent.other_addresses_unchanged tier=thorough bounded="pool of 7 tables (4 path + 3 allocatable); tree-shaped sparse pre-state (target path, one neighbour word per path table, garbage in allocatable frames); recursive index 300; page-table indices (255,511,0,256)"
+    //@ obligation C11 C11.recursive_update_flags_4kib.shape_p3_absent.other_addresses_unchanged tier=thorough bounded="pool of 7 tables (4 path + 3 allocatable); tree-shaped sparse pre-state (target path, one neighbour word per path table, garbage in allocatable frames); recursive index 300; page-table indices (255,511,0,256)"
     //@ obligation C02 C02.recursive_update_flags_4kib.shape_p3_absent.error_leaves_every_mapping tier=thorough bounded="pool of 7 tables (4 path + 3 allocatable); tree-shaped sparse pre-state (target path, one neighbour word per path table, garbage in allocatable frames); recursive index 300; page-table indices (255,511,0,256)"
     //@ obligation C09 C09.recursive_update_flags_4kib.shape_p3_absent.only_dictated_slots_change tier=thorough bounded="pool of 7 tables (4 path + 3 allocatable); tree-shaped sparse pre-state (target path, one neighbour word per path table, garbage in allocatable frames); recursive index 300; page-table indices (255,511,0,256)"
     //@ obligation C09 C09.recursive_update_flags_4kib.shape_p3_absent.no_frames_requested_or_zeroed tier=thorough bounded="pool of 7 tables (4 path + 3 allocatable); tree-shaped sparse pre-state (target path, one neighbour word per path table, garbage in allocatable frames); recursive index 300; page-table indices (255,511,0,256)"
@@ -991,7 +1067,9 @@ mod verif_c01_recursive_step {
     //@ obligation C02 C02.recursive_update_flags_4kib.shape_p3_absent.documented_outcome bounded="pool of 7 tables (4 path + 3 allocatable); tree-shaped sparse pre-state (target path, one neighbour word per path table, garbage in allocatable frames); recursive index 300; page-table indices (256,0,510,511)"
     //@ obligation C11 C11.recursive_update_flags_4kib.shape_p3_absent.token_names_page bounded="pool of 7 tables (4 path + 3 allocatable); tree-shaped sparse pre-state (target path, one neighbour word per path table, garbage in allocatable frames); recursive index 300; page-table indices (256,0,510,511)"
     //@ obligation C01 C01.recursive_update_flags_4kib.shape_p3_absent.target_after bounded="pool of 7 tables (4 path + 3 allocatable); tree-shaped sparse pre-state (target path, one neighbour word per path table, garbage in allocatable frames); recursive index 300; page-table indices (256,0,510,511)"
+    //@ obligation C11 C11.recursive_update_flags_4kib.shape_p3_absent.target_after bounded="pool of 7 tables (4 path + 3 allocatable); tree-shaped sparse pre-state (target path, one neighbour word per path table, garbage in allocatable frames); recursive index 300; page-table indices (256,0,510,511)"
     //@ obligation C01 C01.recursive_update_flags_4kib.shape_p3_absent.other_addresses_unchanged bounded="pool of 7 tables (4 path + 3 allocatable); tree-shaped sparse pre-state (target path, one neighbour word per path table, garbage in allocatable frames); recursive index 300; page-table indices (256,0,510,511)"
+    //@ obligation C11 C11.recursive_update_flags_4kib.shape_p3_absent.other_addresses_unchanged bounded="pool of 7 tables (4 path + 3 allocatable); tree-shaped sparse pre-state (target path, one neighbour word per path table, garbage in allocatable frames); recursive index 300; page-table indices (256,0,510,511)"
     //@ obligation C02 C02.recursive_update_flags_4kib.shape_p3_absent.error_leaves_every_mapping bounded="pool of 7 tables (4 path + 3 allocatable); tree-shaped sparse pre-state (target path, one neighbour word per path table, garbage in allocatable frames); recursive index 300; page-table indices (256,0,510,511)"
     //@ obligation C09 C09.recursive_update_flags_4kib.shape_p3_absent.only_dictated_slots_change bounded="pool of 7 tables (4 path + 3 allocatable); tree-shaped sparse pre-state (target path, one neighbour word per path table, garbage in allocatable frames); recursive index 300; page-table indices (256,0,510,511)"
     //@ obligation C09 C09.recursive_update_flags_4kib.shape_p3_absent.no_frames_requested_or_zeroed bounded="pool of 7 tables (4 path + 3 allocatable); tree-shaped sparse pre-state (target path, one neighbour word per path table, garbage in allocatable frames); recursive index 300; page-table indices (256,0,510,511)"
@@ -1009,7 +1087,9 @@ mod verif_c01_recursive_step {
     //@ obligation C02 C02.recursive_update_flags_4kib.shape_p3_huge.documented_outcome tier=thorough bounded="pool of 7 tables (4 path + 3 allocatable); tree-shaped sparse pre-state (target path, one neighbour word per path table, garbage in allocatable frames); recursive index 300; page-table indices (255,511,0,256)"
     //@ obligation C11 C11.recursive_update_flags_4kib.shape_p3_huge.token_names_page tier=thorough bounded="pool of 7 tables (4 path + 3 allocatable); tree-shaped sparse pre-state (target path, one neighbour word per path table, garbage in allocatable frames); recursive index 300; page-table indices (255,511,0,256)"
     //@ obligation C01 C01.recursive_update_flags_4kib.shape_p3_huge.target_after tier=thorough bounded="pool of 7 tables (4 path + 3 allocatable); tree-shaped sparse pre-state (target path, one neighbour word per path table, garbage in allocatable frames); recursive index 300; page-table indices (255,511,0,256)"
+    //@ obligation C11 C11.recursive_update_flags_4kib.shape_p3_huge.target_after tier=thorough bounded="pool of 7 tables (4 path + 3 allocatable); tree-shaped sparse pre-state (target path, one neighbour word per path table, garbage in allocatable frames); recursive index 300; page-table indices (255,511,0,256)"
     //@ obligation C01 C01.recursive_update_flags_4kib.shape_p3_huge.other_addresses_unchanged tier=thorough bounded="pool of 7 tables (4 path + 3 allocatable); tree-shaped sparse pre-state (target path, one neighbour word per path table, garbage in allocatable frames); recursive index 300; page-table indices (255,511,0,256)"
+    //@ obligation C11 C11.recursive_update_flags_4kib.shape_p3_huge.other_addresses_unchanged tier=thorough bounded="pool of 7 tables (4 path + 3 allocatable); tree-shaped sparse pre-state (target path, one neighbour word per path table, garbage in allocatable frames); recursive index 300; page-table indices (255,511,0,256)"
     //@ obligation C02 C02.recursive_update_flags_4kib.shape_p3_huge.error_leaves_every_mapping tier=thorough bounded="pool of 7 tables (4 path + 3 allocatable); tree-shaped sparse pre-state (target path, one neighbour word per path table, garbage in allocatable frames); recursive index 300; page-table indices (255,511,0,256)"
     //@ obligation C09 C09.recursive_update_flags_4kib.shape_p3_huge.only_dictated_slots_change tier=thorough bounded="pool of 7 tables (4 path + 3 allocatable); tree-shaped sparse pre-state (target path, one neighbour word per path table, garbage in allocatable frames); recursive index 300; page-table indices (255,511,0,256)"
     //@ obligation C09 C09.recursive_update_flags_4kib.shape_p3_huge.no_frames_requested_or_zeroed tier=thorough bounded="pool of 7 tables (4 path + 3 allocatable); tree-shaped sparse pre-state (target path, one neighbour word per path table, garbage in allocatable frames); recursive index 300; page-table indices (255,511,0,256)"
@@ -1027,7 +1107,9 @@ mod verif_c01_recursive_step {
     //@ obligation C02 C02.recursive_update_flags_4kib.shape_p3_huge.documented_outcome bounded="pool of 7 tables (4 path + 3 allocatable); tree-shaped sparse pre-state (target path, one neighbour word per path table, garbage in allocatable frames); recursive index 300; page-table indices (256,0,510,511)"
     //@ obligation C11 C11.recursive_update_flags_4kib.shape_p3_huge.token_names_page bounded="pool of 7 tables (4 path + 3 allocatable); tree-shaped sparse pre-state (target path, one neighbour word per path table, garbage in allocatable frames); recursive index 300; page-table indices (256,0,510,511)"
     //@ obligation C01 C01.recursive_update_flags_4kib.shape_p3_huge.target_after bounded="pool of 7 tables (4 path + 3 allocatable); tree-shaped sparse pre-state (target path, one neighbour word per path table, garbage in allocatable frames); recursive index 300; page-table indices (256,0,510,511)"
+    //@ obligation C11 C11.recursive_update_flags_4kib.shape_p3_huge.target_after bounded="pool of 7 tables (4 path + 3 allocatable); tree-shaped sparse pre-state (target path, one neighbour word per path table, garbage in allocatable frames); recursive index 300; page-table indices (256,0,510,511)"
     //@ obligation C01 C01.recursive_update_flags_4kib.shape_p3_huge.other_addresses_unchanged bounded="pool of 7 tables (4 path + 3 allocatable); tree-shaped sparse pre-state (target path, one neighbour word per path table, garbage in allocatable frames); recursive index 300; page-table indices (256,0,510,511)"
+    //@ obligation C11 C11.recursive_update_flags_4kib.shape_p3_huge.other_addresses_unchanged bounded="pool of 7 tables (4 path + 3 allocatable); tree-shaped sparse pre-state (target path, one neighbour word per path table, garbage in allocatable frames); recursive index 300; page-table indices (256,0,510,511)"
     //@ obligation C02 C02.recursive_update_flags_4kib.shape_p3_huge.error_leaves_every_mapping bounded="pool of 7 tables (4 path + 3 allocatable); tree-shaped sparse pre-state (target path, one neighbour word per path table, garbage in allocatable frames); recursive index 300; page-table indices (256,0,510,511)"
     //@ obligation C09 C09.recursive_update_flags_4kib.shape_p3_huge.only_dictated_slots_change bounded="pool of 7 tables (4 path + 3 allocatable); tree-shaped sparse pre-state (target path, one neighbour word per path table, garbage in allocatable frames); recursive index 300; page-table indices (256,0,510,511)"
     //@ obligation C09 C09.recursive_update_flags_4kib.shape_p3_huge.no_frames_requested_or_zeroed bounded="pool of 7 tables (4 path + 3 allocatable); tree-shaped sparse pre-state (target path, one neighbour word per path table, garbage in allocatable frames); recursive index 300; page-table indices (256,0,510,511)"
@@ -1045,7 +1127,9 @@ mod verif_c01_recursive_step {
     //@ obligation C02 C02.recursive_update_flags_4kib.shape_p2_absent.documented_outcome tier=thorough bounded="pool of 7 tables (4 path + 3 allocatable); tree-shaped sparse pre-state (target path, one neighbour word per path table, garbage in allocatable frames); recursive index 300; page-table indices (255,511,0,256)"
     //@ obligation C11 C11.recursive_update_flags_4kib.shape_p2_absent.token_names_page tier=thorough bounded="pool of 7 tables (4 path + 3 allocatable); tree-shaped sparse pre-state (target path, one neighbour word per path table, garbage in allocatable frames); recursive index 300; page-table indices (255,511,0,256)"
     //@ obligation C01 C01.recursive_update_flags_4kib.shape_p2_absent.target_after tier=thorough bounded="pool of 7 tables (4 path + 3 allocatable); tree-shaped sparse pre-state (target path, one neighbour word per path table, garbage in allocatable frames); recursive index 300; page-table indices (255,511,0,256)"
+    //@ obligation C11 C11.recursive_update_flags_4kib.shape_p2_absent.target_after tier=thorough bounded="pool of 7 tables (4 path + 3 allocatable); tree-shaped sparse pre-state (target path, one neighbour word per path table, garbage in allocatable frames); recursive index 300; page-table indices (255,511,0,256)"
     //@ obligation C01 C01.recursive_update_flags_4kib.shape_p2_absent.other_addresses_unchanged tier=thorough bounded="pool of 7 tables (4 path + 3 allocatable); tree-shaped sparse pre-state (target path, one neighbour word per path table, garbage in allocatable frames); recursive index 300; page-table indices (255,511,0,256)"
+    //@ obligation C11 C11.recursive_update_flags_4kib.shape_p2_absent.other_addresses_unchanged tier=thorough bounded="pool of 7 tables (4 path + 3 allocatable); tree-shaped sparse pre-state (target path, one neighbour word per path table, garbage in allocatable frames); recursive index 300; page-table indices (255,511,0,256)"
     //@ obligation C02 C02.recursive_update_flags_4kib.shape_p2_absent.error_leaves_every_mapping tier=thorough bounded="pool of 7 tables (4 path + 3 allocatable); tree-shaped sparse pre-state (target path, one neighbour word per path table, garbage in allocatable frames); recursive index 300; page-table indices (255,511,0,256)"
     //@ obligation C09 C09.recursive_update_flags_4kib.shape_p2_absent.only_dictated_slots_change tier=thorough bounded="pool of 7 tables (4 path + 3 allocatable); tree-shaped sparse pre-state (target path, one neighbour word per path table, garbage in allocatable frames); recursive index 300; page-table indices (255,511,0,256)"
     //@ obligation C09 C09.recursive_update_flags_4kib.shape_p2_absent.no_frames_requested_or_zeroed tier=thorough bounded="pool of 7 tables (4 path + 3 allocatable); tree-shaped sparse pre-state (target path, one neighbour word per path table, garbage in allocatable frames); recursive index 300; page-table indices (255,511,0,256)"
@@ -1063,7 +1147,9 @@ mod verif_c01_recursive_step {
     //@ obligation C02 C02.recursive_update_flags_4kib.shape_p2_absent.documented_outcome bounded="pool of 7 tables (4 path + 3 allocatable); tree-shaped sparse pre-state (target path, one neighbour word per path table, garbage in allocatable frames); recursive index 300; page-table indices (256,0,510,511)"
     //@ obligation C11 C11.recursive_update_flags_4kib.shape_p2_absent.token_names_page bounded="pool of 7 tables (4 path + 3 allocatable); tree-shaped sparse pre-state (target path, one neighbour word per path table, garbage in allocatable frames); recursive index 300; page-table indices (256,0,510,511)"
     //@ obligation C01 C01.recursive_update_flags_4kib.shape_p2_absent.target_after bounded="pool of 7 tables (4 path + 3 allocatable); tree-shaped sparse pre-state (target path, one neighbour word per path table, garbage in allocatable frames); recursive index 300; page-table indices (256,0,510,511)"
+    //@ obligation C11 C11.recursive_update_flags_4kib.shape_p2_absent.target_after bounded="pool of 7 tables (4 path + 3 allocatable); tree-shaped sparse pre-state (target path, one neighbour word per path table, garbage in allocatable frames); recursive index 300; page-table indices (256,0,510,511)"
     //@ obligation C01 C01.recursive_update_flags_4kib.shape_p2_absent.other_addresses_unchanged bounded="pool of 7 tables (4 path + 3 allocatable); tree-shaped sparse pre-state (target path, one neighbour word per path table, garbage in allocatable frames); recursive index 300; page-table indices (256,0,510,511)"
+    //@ obligation C11 C11.recursive_update_flags_4kib.shape_p2_absent.other_addresses_unchanged bounded="pool of 7 tables (4 path + 3 allocatable); tree-shaped sparse pre-state (target path, one neighbour word per path table, garbage in allocatable frames); recursive index 300; page-table indices (256,0,510,511)"
     //@ obligation C02 C02.recursive_update_flags_4kib.shape_p2_absent.error_leaves_every_mapping bounded="pool of 7 tables (4 path + 3 allocatable); tree-shaped sparse pre-state (target path, one neighbour word per path table, garbage in allocatable frames); recursive index 300; page-table indices (256,0,510,511)"
     //@ obligation C09 C09.recursive_update_flags_4kib.shape_p2_absent.only_dictated_slots_change bounded="pool of 7 tables (4 path + 3 allocatable); tree-shaped sparse pre-state (target path, one neighbour word per path table, garbage in allocatable frames); recursive index 300; page-table indices (256,0,510,511)"
     //@ obligation C09 C09.recursive_update_flags_4kib.shape_p2_absent.no_frames_requested_or_zeroed bounded="pool of 7 tables (4 path + 3 allocatable); tree-shaped sparse pre-state (target path, one neighbour word per path table, garbage in allocatable frames); recursive index 300; page-table indices (256,0,510,511)"
@@ -1081,7 +1167,9 @@ mod verif_c01_recursive_step {
     //@ obligation C02 C02.recursive_update_flags_4kib.shape_p2_huge.documented_outcome bounded="pool of 7 tables (4 path + 3 allocatable); tree-shaped sparse pre-state (target path, one neighbour word per path table, garbage in allocatable frames); recursive index 300; page-table indices (255,511,0,256)"
     //@ obligation C11 C11.recursive_update_flags_4kib.shape_p2_huge.token_names_page bounded="pool of 7 tables (4 path + 3 allocatable); tree-shaped sparse pre-state (target path, one neighbour word per path table, garbage in allocatable frames); recursive index 300; page-table indices (255,511,0,256)"
     //@ obligation C01 C01.recursive_update_flags_4kib.shape_p2_huge.target_after bounded="pool of 7 tables (4 path + 3 allocatable); tree-shaped sparse pre-state (target path, one neighbour word per path table, garbage in allocatable frames); recursive index 300; page-table indices (255,511,0,256)"
+    //@ obligation C11 C11.recursive_update_flags_4kib.shape_p2_huge.target_after bounded="pool of 7 tables (4 path + 3 allocatable); tree-shaped sparse pre-state (target path, one neighbour word per path table, garbage in allocatable frames); recursive index 300; page-table indices (255,511,0,256)"
     //@ obligation C01 C01.recursive_update_flags_4kib.shape_p2_huge.other_addresses_unchanged bounded="pool of 7 tables (4 path + 3 allocatable); tree-shaped sparse pre-state (target path, one neighbour word per path table, garbage in allocatable frames); recursive index 300; page-table indices (255,511,0,256)"
+    //@ obligation C11 C11.recursive_update_flags_4kib.shape_p2_huge.other_addresses_unchanged bounded="pool of 7 tables (4 path + 3 allocatable); tree-shaped sparse pre-state (target path, one neighbour word per path table, garbage in allocatable frames); recursive index 300; page-table indices (255,511,0,256)"
     //@ obligation C02 C02.recursive_update_flags_4kib.shape_p2_huge.error_leaves_every_mapping bounded="pool of 7 tables (4 path + 3 allocatable); tree-shaped sparse pre-state (target path, one neighbour word per path table, garbage in allocatable frames); recursive index 300; page-table indices (255,511,0,256)"
     //@ obligation C09 C09.recursive_update_flags_4kib.shape_p2_huge.only_dictated_slots_change bounded="pool of 7 tables (4 path + 3 allocatable); tree-shaped sparse pre-state (target path, one neighbour word per path table, garbage in allocatable frames); recursive index 300; page-table indices (255,511,0,256)"
     //@ obligation C09 C09.recursive_update_flags_4kib.shape_p2_huge.no_frames_requested_or_zeroed bounded="pool of 7 tables (4 path + 3 allocatable); tree-shaped sparse pre-state (target path, one neighbour word per path table, garbage in allocatable frames); recursive index 300; page-table indices (255,511,0,256)"
@@ -1099,7 +1187,9 @@ mod verif_c01_recursive_step {
     //@ obligation C02 C02.recursive_update_flags_4kib.shape_p2_huge.documented_outcome tier=thorough bounded="pool of 7 tables (4 path + 3 allocatable); tree-shaped sparse pre-state (target path, one neighbour word per path table, garbage in allocatable frames); recursive index 300; page-table indices (256,0,510,511)"
     //@ obligation C11 C11.recursive_update_flags_4kib.shape_p2_huge.token_names_page tier=thorough bounded="pool of 7 tables (4 path + 3 allocatable); tree-shaped sparse pre-state (target path, one neighbour word per path table, garbage in allocatable frames); recursive index 300; page-table indices (256,0,510,511)"
     //@ obligation C01 C01.recursive_update_flags_4kib.shape_p2_huge.target_after tier=thorough bounded="pool of 7 tables (4 path + 3 allocatable); tree-shaped sparse pre-state (target path, one neighbour word per path table, garbage in allocatable frames); recursive index 300; page-table indices (256,0,510,511)"
+    //@ obligation C11 C11.recursive_update_flags_4kib.shape_p2_huge.target_after tier=thorough bounded="pool of 7 tables (4 path + 3 allocatable); tree-shaped sparse pre-state (target path, one neighbour word per path table, garbage in allocatable frames); recursive index 300; page-table indices (256,0,510,511)"
     //@ obligation C01 C01.recursive_update_flags_4kib.shape_p2_huge.other_addresses_unchanged tier=thorough bounded="pool of 7 tables (4 path + 3 allocatable); tree-shaped sparse pre-state (target path, one neighbour word per path table, garbage in allocatable frames); recursive index 300; page-table indices (256,0,510,511)"
+    //@ obligation C11 C11.recursive_update_flags_4kib.shape_p2_huge.other_addresses_unchanged tier=thorough bounded="pool of 7 tables (4 path + 3 allocatable); tree-shaped sparse pre-state (target path, one neighbour word per path table, garbage in allocatable frames); recursive index 300; page-table indices (256,0,510,511)"
     //@ obligation C02 C02.recursive_update_flags_4kib.shape_p2_huge.error_leaves_every_mapping tier=thorough bounded="pool of 7 tables (4 path + 3 allocatable); tree-shaped sparse pre-state (target path, one neighbour word per path table, garbage in allocatable frames); recursive index 300; page-table indices (256,0,510,511)"
     //@ obligation C09 C09.recursive_update_flags_4kib.shape_p2_huge.only_dictated_slots_change tier=thorough bounded="pool of 7 tables (4 path + 3 allocatable); tree-shaped sparse pre-state (target path, one neighbour word per path table, garbage in allocatable frames); recursive index 300; page-table indices (256,0,510,511)"
     //@ obligation C09 C09.recursive_update_flags_4kib.shape_p2_huge.no_frames_requested_or_zeroed tier=thorough bounded="pool of 7 tables (4 path + 3 allocatable); tree-shaped sparse pre-state (target path, one neighbour word per path table, garbage in allocatable frames); recursive index 300; page-table indices (256,0,510,511)"
@@ -1117,7 +1207,9 @@ mod verif_c01_recursive_step {
     //@ obligation C02 C02.recursive_update_flags_4kib.shape_p1_absent.documented_outcome bounded="pool of 7 tables (4 path + 3 allocatable); tree-shaped sparse pre-state (target path, one neighbour word per path table, garbage in allocatable frames); recursive index 300; page-table indices (255,511,0,256)"
     //@ obligation C11 C11.recursive_update_flags_4kib.shape_p1_absent.token_names_page bounded="pool of 7 tables (4 path + 3 allocatable); tree-shaped sparse pre-state (target path, one neighbour word per path table, garbage in allocatable frames); recursive index 300; page-table indices (255,511,0,256)"
     //@ obligation C01 C01.recursive_update_flags_4kib.shape_p1_absent.target_after bounded="pool of 7 tables (4 path + 3 allocatable); tree-shaped sparse pre-state (target path, one neighbour word per path table, garbage in allocatable frames); recursive index 300; page-table indices (255,511,0,256)"
+    //@ obligation C11 C11.recursive_update_flags_4kib.shape_p1_absent.target_after bounded="pool of 7 tables (4 path + 3 allocatable); tree-shaped sparse pre-state (target path, one neighbour word per path table, garbage in allocatable frames); recursive index 300; page-table indices (255,511,0,256)"
     //@ obligation C01 C01.recursive_update_flags_4kib.shape_p1_absent.other_addresses_unchanged bounded="pool of 7 tables (4 path + 3 allocatable); tree-shaped sparse pre-state (target path, one neighbour word per path table, garbage in allocatable frames); recursive index 300; page-table indices (255,511,0,256)"
+    //@ obligation C11 C11.recursive_update_flags_4kib.shape_p1_absent.other_addresses_unchanged bounded="pool of 7 tables (4 path + 3 allocatable); tree-shaped sparse pre-state (target path, one neighbour word per path table, garbage in allocatable frames); recursive index 300; page-table indices (255,511,0,256)"
     //@ obligation C02 C02.recursive_update_flags_4kib.shape_p1_absent.error_leaves_every_mapping bounded="pool of 7 tables (4 path + 3 allocatable); tree-shaped sparse pre-state (target path, one neighbour word per path table, garbage in allocatable frames); recursive index 300; page-table indices (255,511,0,256)"
     //@ obligation C09 C09.recursive_update_flags_4kib.shape_p1_absent.only_dictated_slots_change bounded="pool of 7 tables (4 path + 3 allocatable); tree-shaped sparse pre-state (target path, one neighbour word per path table, garbage in allocatable frames); recursive index 300; page-table indices (255,511,0,256)"
     //@ obligation C09 C09.recursive_update_flags_4kib.shape_p1_absent.no_frames_requested_or_zeroed bounded="pool of 7 tables (4 path + 3 allocatable); tree-shaped sparse pre-state (target path, one neighbour word per path table, garbage in allocatable frames); recursive index 300; page-table indices (255,511,0,256)"
@@ -1135,7 +1227,9 @@ mod verif_c01_recursive_step {
     //@ obligation C02 C02.recursive_update_flags_4kib.shape_p1_absent.documented_outcome tier=thorough bounded="pool of 7 tables (4 path + 3 allocatable); tree-shaped sparse pre-state (target path, one neighbour word per path table, garbage in allocatable frames); recursive index 300; page-table indices (256,0,510,511)"
     //@ obligation C11 C11.recursive_update_flags_4kib.shape_p1_absent.token_names_page tier=thorough bounded="pool of 7 tables (4 path + 3 allocatable); tree-shaped sparse pre-state (target path, one neighbour word per path table, garbage in allocatable frames); recursive index 300; page-table indices (256,0,510,511)"
     //@ obligation C01 C01.recursive_update_flags_4kib.shape_p1_absent.target_after tier=thorough bounded="pool of 7 tables (4 path + 3 allocatable); tree-shaped sparse pre-state (target path, one neighbour word per path table, garbage in allocatable frames); recursive index 300; page-table indices (256,0,510,511)"
+    //@ obligation C11 C11.recursive_update_flags_4kib.shape_p1_absent.target_after tier=thorough bounded="pool of 7 tables (4 path + 3 allocatable); tree-shaped sparse pre-state (target path, one neighbour word per path table, garbage in allocatable frames); recursive index 300; page-table indices (256,0,510,511)"
     //@ obligation C01 C01.recursive_update_flags_4kib.shape_p1_absent.other_addresses_unchanged tier=thorough bounded="pool of 7 tables (4 path + 3 allocatable); tree-shaped sparse pre-state (target path, one neighbour word per path table, garbage in allocatable frames); recursive index 300; page-table indices (256,0,510,511)"
+    //@ obligation C11 C11.recursive_update_flags_4kib.shape_p1_absent.other_addresses_unchanged tier=thorough bounded="pool of 7 tables (4 path + 3 allocatable); tree-shaped sparse pre-state (target path, one neighbour word per path table, garbage in allocatable frames); recursive index 300; page-table indices (256,0,510,511)"
     //@ obligation C02 C02.recursive_update_flags_4kib.shape_p1_absent.error_leaves_every_mapping tier=thorough bounded="pool of 7 tables (4 path + 3 allocatable); tree-shaped sparse pre-state (target path, one neighbour word per path table, garbage in allocatable frames); recursive index 300; page-table indices (256,0,510,511)"
     //@ obligation C09 C09.recursive_update_flags_4kib.shape_p1_absent.only_dictated_slots_change tier=thorough bounded="pool of 7 tables (4 path + 3 allocatable); tree-shaped sparse pre-state (target path, one neighbour word per path table, garbage in allocatable frames); recursive index 300; page-table indices (256,0,510,511)"
     //@ obligation C09 C09.recursive_update_flags_4kib.shape_p1_absent.no_frames_requested_or_zeroed tier=thorough bounded="pool of 7 tables (4 path + 3 allocatable); tree-shaped sparse pre-state (target path, one neighbour word per path table, garbage in allocatable frames); recursive index 300; page-table indices (256,0,510,511)"
@@ -1153,7 +1247,9 @@ mod verif_c01_recursive_step {
     //@ obligation C02 C02.recursive_update_flags_4kib.shape_p1_leaf.documented_outcome bounded="pool of 7 tables (4 path + 3 allocatable); tree-shaped sparse pre-state (target path, one neighbour word per path table, garbage in allocatable frames); recursive index 300; page-table indices (255,511,0,256)"
     //@ obligation C11 C11.recursive_update_flags_4kib.shape_p1_leaf.token_names_page bounded="pool of 7 tables (4 path + 3 allocatable); tree-shaped sparse pre-state (target path, one neighbour word per path table, garbage in allocatable frames); recursive index 300; page-table indices (255,511,0,256)"
     //@ obligation C01 C01.recursive_update_flags_4kib.shape_p1_leaf.target_after bounded="pool of 7 tables (4 path + 3 allocatable); tree-shaped sparse pre-state (target path, one neighbour word per path table, garbage in allocatable frames); recursive index 300; page-table indices (255,511,0,256)"
+    //@ obligation C11 C11.recursive_update_flags_4kib.shape_p1_leaf.target_after bounded="pool of 7 tables (4 path + 3 allocatable); tree-shaped sparse pre-state (target path, one neighbour word per path table, garbage in allocatable frames); recursive index 300; page-table indices (255,511,0,256)"
     //@ obligation C01 C01.recursive_update_flags_4kib.shape_p1_leaf.other_addresses_unchanged bounded="pool of 7 tables (4 path + 3 allocatable); tree-shaped sparse pre-state (target path, one neighbour word per path table, garbage in allocatable frames); recursive index 300; page-table indices (255,511,0,256)"
+    //@ obligation C11 C11.recursive_update_flags_4kib.shape_p1_leaf.other_addresses_unchanged bounded="pool of 7 tables (4 path + 3 allocatable); tree-shaped sparse pre-state (target path, one neighbour word per path table, garbage in allocatable frames); recursive index 300; page-table indices (255,511,0,256)"
     //@ obligation C02 C02.recursive_update_flags_4kib.shape_p1_leaf.error_leaves_every_mapping bounded="pool of 7 tables (4 path + 3 allocatable); tree-shaped sparse pre-state (target path, one neighbour word per path table, garbage in allocatable frames); recursive index 300; page-table indices (255,511,0,256)"
     //@ obligation C09 C09.recursive_update_flags_4kib.shape_p1_leaf.only_dictated_slots_change bounded="pool of 7 tables (4 path + 3 allocatable); tree-shaped sparse pre-state (target path, one neighbour word per path table, garbage in allocatable frames); recursive index 300; page-table indices (255,511,0,256)"
     //@ obligation C09 C09.recursive_update_flags_4kib.shape_p1_leaf.no_frames_requested_or_zeroed bounded="pool of 7 tables (4 path + 3 allocatable); tree-shaped sparse pre-state (target path, one neighbour word per path table, garbage in allocatable frames); recursive index 300; page-table indices (255,511,0,256)"
@@ -1171,7 +1267,9 @@ mod verif_c01_recursive_step {
     //@ obligation C02 C02.recursive_update_flags_4kib.shape_p1_leaf.documented_outcome tier=thorough bounded="pool of 7 tables (4 path + 3 allocatable); tree-shaped sparse pre-state (target path, one neighbour word per path table, garbage in allocatable frames); recursive index 300; page-table indices (256,0,510,511)"
     //@ obligation C11 C11.recursive_update_flags_4kib.shape_p1_leaf.token_names_page tier=thorough bounded="pool of 7 tables (4 path + 3 allocatable); tree-shaped sparse pre-state (target path, one neighbour word per path table, garbage in allocatable frames); recursive index 300; page-table indices (256,0,510,511)"
     //@ obligation C01 C01.recursive_update_flags_4kib.shape_p1_leaf.target_after tier=thorough bounded="pool of 7 tables (4 path + 3 allocatable); tree-shaped sparse pre-state (target path, one neighbour word per path table, garbage in allocatable frames); recursive index 300; page-table indices (256,0,510,511)"
+    //@ obligation C11 C11.recursive_update_flags_4kib.shape_p1_leaf.target_after tier=thorough bounded="pool of 7 tables (4 path + 3 allocatable); tree-shaped sparse pre-state (target path, one neighbour word per path table, garbage in allocatable frames); recursive index 300; page-table indices (256,0,510,511)"
     //@ obligation C01 C01.recursive_update_flags_4kib.shape_p1_leaf.other_addresses_unchanged tier=thorough bounded="pool of 7 tables (4 path + 3 allocatable); tree-shaped sparse pre-state (target path, one neighbour word per path table, garbage in allocatable frames); recursive index 300; page-table indices (256,0,510,511)"
+    //@ obligation C11 C11.recursive_update_flags_4kib.shape_p1_leaf.other_addresses_unchanged tier=thorough bounded="pool of 7 tables (4 path + 3 allocatable); tree-shaped sparse pre-state (target path, one neighbour word per path table, garbage in allocatable frames); recursive index 300; page-table indices (256,0,510,511)"
     //@ obligation C02 C02.recursive_update_flags_4kib.shape_p1_leaf.error_leaves_every_mapping tier=thorough bounded="pool of 7 tables (4 path + 3 allocatable); tree-shaped sparse pre-state (target path, one neighbour word per path table, garbage in allocatable frames); recursive index 300; page-table indices (256,0,510,511)"
     //@ obligation C09 C09.recursive_update_flags_4kib.shape_p1_leaf.only_dictated_slots_change tier=thorough bounded="pool of 7 tables (4 path + 3 allocatable); tree-shaped sparse pre-state (target path, one neighbour word per path table, garbage in allocatable frames); recursive index 300; page-table indices (256,0,510,511)"
     //@ obligation C09 C09.recursive_update_flags_4kib.shape_p1_leaf.no_frames_requested_or_zeroed tier=thorough bounded="pool of 7 tables (4 path + 3 allocatable); tree-shaped sparse pre-state (target path, one neighbour word per path table, garbage in allocatable frames); recursive index 300; page-table indices (256,0,510,511)"
